@@ -15,9 +15,17 @@
 //! plans beyond the (K,O) grid: small K on every query that can take a block-max path, and
 //! O+K just below the match count of >= 4 segments (the merge of the per-segment lists has to
 //! cut repeatedly).
+//!
+//! Composition: every second search is repeated with the TopDocs collector inside a tuple, a
+//! nested tuple, a MultiCollector (one or several TopDocs handles), an Option or a FilterCollector
+//! (see `Shape`): a composing collector drives TopDocs through for_segment / collect / harvest
+//! instead of collect_segment, and must deliver the same page. Scores <= 0: boosts and constant
+//! scores that are zero or negative (demotion clauses) are part of the query generator. Stream
+//! `small` searches tiny corpora over the complete (K, O) grid, plain and composed.
 #[path = "scshared/mod.rs"]
 mod scshared;
 
+use std::any::Any;
 use std::cmp::Ordering;
 use std::collections::{BTreeMap, HashMap, HashSet};
 use std::sync::Arc;
@@ -28,10 +36,13 @@ use tantivy::collector::sort_key::{
     ComparatorEnum, NaturalComparator, SortByErasedType, SortBySimilarityScore,
     SortByStaticFastValue, SortByString,
 };
-use tantivy::collector::{Collector, SegmentSortKeyComputer, SortKeyComputer, TopDocs};
+use tantivy::collector::{
+    Collector, Count, FilterCollector, MultiCollector, SegmentCollector, SegmentSortKeyComputer,
+    SortKeyComputer, TopDocs,
+};
 use tantivy::columnar::Column;
 use tantivy::query::{Occur, Query};
-use tantivy::schema::{IndexRecordOption, OwnedValue};
+use tantivy::schema::{IndexRecordOption, OwnedValue, Schema};
 use tantivy::{DateTime, DocAddress, DocId, Index, Order, Score, Searcher, SegmentReader, Term};
 use tvmon::report::*;
 use tvmon::rng::Rng;
@@ -65,10 +76,11 @@ impl OrdVal {
         match (self, o) {
             (OrdVal::U(a), OrdVal::U(b)) => a == b,
             (OrdVal::I(a), OrdVal::I(b)) => a == b,
-            (OrdVal::F(a), OrdVal::F(b)) => a.to_bits() == b.to_bits(),
+            // (the sign of a zero is not part of a key: 0.0 and -0.0 compare equal)
+            (OrdVal::F(a), OrdVal::F(b)) => a.to_bits() == b.to_bits() || (*a == 0.0 && *b == 0.0),
             (OrdVal::S(a), OrdVal::S(b)) => a == b,
             (OrdVal::B(a), OrdVal::B(b)) => a == b,
-            (OrdVal::Sc(a), OrdVal::Sc(b)) => a.to_bits() == b.to_bits(),
+            (OrdVal::Sc(a), OrdVal::Sc(b)) => a.to_bits() == b.to_bits() || (*a == 0.0 && *b == 0.0),
             _ => false,
         }
     }
@@ -518,17 +530,327 @@ impl SegmentSortKeyComputer for ByTableSeg {
     }
 }
 
-fn run<C, T>(
-    searcher: &Searcher,
-    q: &dyn Query,
-    coll: C,
-    conv: impl Fn(T) -> CKey,
-) -> Result<Vec<(CKey, DocAddress)>, String>
+// ---------------------------------------------------------------------------------------------
+// TopDocs composed with other collectors
+//
+// A composing collector (tuple, MultiCollector, Option, FilterCollector ...) drives the TopDocs
+// collector through `Collector::for_segment` + `SegmentCollector::collect` + `harvest` +
+// `merge_fruits`; a plain `searcher.search(&q, &TopDocs...)` goes through
+// `Collector::collect_segment` (with its own per-segment top-K and, for the relevance score, the
+// pruning callback). Both ways must deliver the same page.
+
+type Page = Vec<(CKey, DocAddress)>;
+
+#[derive(Clone, Copy, Debug, PartialEq, Eq)]
+enum Shape {
+    Plain,
+    /// `(TopDocs, Count)`
+    TopCount,
+    /// `(Count, TopDocs)`
+    CountTop,
+    /// MultiCollector holding the TopDocs collector only
+    Multi1,
+    /// MultiCollector {TopDocs, Count}
+    MultiTopCount,
+    /// MultiCollector {Count, TopDocs, second TopDocs of the same sort (other page), TopDocs by score}
+    MultiMany,
+    /// `(Count, TopDocs, Count)`
+    Triple,
+    /// `(TopDocs, Count, second TopDocs, Count)`
+    Quad,
+    /// `((TopDocs, Count), Count)`
+    NestedLeft,
+    /// `(Count, (Count, TopDocs))`
+    NestedRight,
+    /// `((Count, (TopDocs, Count)), second TopDocs)`
+    NestedDeep,
+    /// `(Some(TopDocs), None::<Count>)`
+    OptionSome,
+    /// `(TopDocs, TopDocs::order_by_score page)`: scoring is forced on a fast-field TopDocs
+    WithScorePage,
+    /// `FilterCollector(fu predicate, TopDocs)`
+    Filtered,
+}
+
+const SHAPES: [Shape; 13] = [
+    Shape::TopCount,
+    Shape::CountTop,
+    Shape::Multi1,
+    Shape::MultiTopCount,
+    Shape::MultiMany,
+    Shape::Triple,
+    Shape::Quad,
+    Shape::NestedLeft,
+    Shape::NestedRight,
+    Shape::NestedDeep,
+    Shape::OptionSome,
+    Shape::WithScorePage,
+    Shape::Filtered,
+];
+
+impl Shape {
+    fn name(self) -> &'static str {
+        match self {
+            Shape::Plain => "TopDocs",
+            Shape::TopCount => "(TopDocs,Count)",
+            Shape::CountTop => "(Count,TopDocs)",
+            Shape::Multi1 => "MultiCollector{TopDocs}",
+            Shape::MultiTopCount => "MultiCollector{TopDocs,Count}",
+            Shape::MultiMany => "MultiCollector{Count,TopDocs,TopDocs',TopDocs-by-score}",
+            Shape::Triple => "(Count,TopDocs,Count)",
+            Shape::Quad => "(TopDocs,Count,TopDocs',Count)",
+            Shape::NestedLeft => "((TopDocs,Count),Count)",
+            Shape::NestedRight => "(Count,(Count,TopDocs))",
+            Shape::NestedDeep => "((Count,(TopDocs,Count)),TopDocs')",
+            Shape::OptionSome => "(Some(TopDocs),None)",
+            Shape::WithScorePage => "(TopDocs,TopDocs-by-score)",
+            Shape::Filtered => "FilterCollector(fu,TopDocs)",
+        }
+    }
+}
+
+/// predicates of the FilterCollector shape (on the `fu` fast field; documents without a value
+/// are filtered out, as documented)
+fn fu_pred(id: u8, v: u64) -> bool {
+    match id {
+        0 => v % 2 == 0,
+        1 => v >= 2,
+        2 => v != 7 && v != u64::MAX,
+        _ => true,
+    }
+}
+
+/// one request: the page (k, o) of `shape`; shapes with a second TopDocs handle of the same sort
+/// also ask for page (k2, o2), shapes with a TopDocs-by-score companion for page (k3, o3)
+struct Req<'a> {
+    searcher: &'a Searcher,
+    q: &'a dyn Query,
+    shape: Shape,
+    k: usize,
+    o: usize,
+    k2: usize,
+    o2: usize,
+    k3: usize,
+    o3: usize,
+    pred: u8,
+}
+
+#[derive(Default)]
+struct Out {
+    page: Page,
+    page2: Option<Page>,
+    score_page: Option<Vec<(Score, DocAddress)>>,
+    counts: Vec<usize>,
+}
+
+// type erasure of one TopDocs collector (whatever its sort key type): the nested shapes are
+// compiled once instead of once per sort kind. The adapter forwards for_segment / collect /
+// collect_block / harvest / merge_fruits and does NOT forward collect_segment, like any composing
+// collector.
+trait SegDyn {
+    fn collect_dyn(&mut self, doc: DocId, score: Score);
+    fn collect_block_dyn(&mut self, docs: &[DocId]);
+    fn harvest_dyn(self: Box<Self>) -> Box<dyn Any + Send>;
+}
+struct SegWrap<S>(S);
+impl<S: SegmentCollector> SegDyn for SegWrap<S> {
+    fn collect_dyn(&mut self, doc: DocId, score: Score) {
+        self.0.collect(doc, score)
+    }
+    fn collect_block_dyn(&mut self, docs: &[DocId]) {
+        self.0.collect_block(docs)
+    }
+    fn harvest_dyn(self: Box<Self>) -> Box<dyn Any + Send> {
+        Box::new(self.0.harvest())
+    }
+}
+struct DynSeg(Box<dyn SegDyn>);
+impl SegmentCollector for DynSeg {
+    type Fruit = Box<dyn Any + Send>;
+    fn collect(&mut self, doc: DocId, score: Score) {
+        self.0.collect_dyn(doc, score)
+    }
+    fn collect_block(&mut self, docs: &[DocId]) {
+        self.0.collect_block_dyn(docs)
+    }
+    fn harvest(self) -> Box<dyn Any + Send> {
+        self.0.harvest_dyn()
+    }
+}
+trait CollDyn: Send + Sync {
+    fn for_segment_dyn(&self, ord: u32, seg: &SegmentReader) -> tantivy::Result<DynSeg>;
+    fn requires_scoring_dyn(&self) -> bool;
+    fn check_schema_dyn(&self, schema: &Schema) -> tantivy::Result<()>;
+    fn merge_dyn(&self, fruits: Vec<Box<dyn Any + Send>>) -> tantivy::Result<Page>;
+}
+struct Erase<C, F>(C, F);
+impl<C, T, F> CollDyn for Erase<C, F>
 where
     C: Collector<Fruit = Vec<(T, DocAddress)>>,
+    F: Fn(T) -> CKey + Send + Sync,
 {
-    match catch_search(|| searcher.search(q, &coll)) {
-        Ok(Ok(v)) => Ok(v.into_iter().map(|(k, a)| (conv(k), a)).collect()),
+    fn for_segment_dyn(&self, ord: u32, seg: &SegmentReader) -> tantivy::Result<DynSeg> {
+        Ok(DynSeg(Box::new(SegWrap(self.0.for_segment(ord, seg)?))))
+    }
+    fn requires_scoring_dyn(&self) -> bool {
+        self.0.requires_scoring()
+    }
+    fn check_schema_dyn(&self, schema: &Schema) -> tantivy::Result<()> {
+        self.0.check_schema(schema)
+    }
+    fn merge_dyn(&self, fruits: Vec<Box<dyn Any + Send>>) -> tantivy::Result<Page> {
+        let typed: Vec<<C::Child as SegmentCollector>::Fruit> = fruits
+            .into_iter()
+            .map(|b| {
+                *b.downcast::<<C::Child as SegmentCollector>::Fruit>()
+                    .unwrap_or_else(|_| panic!("harness: segment fruit of an unexpected type"))
+            })
+            .collect();
+        let merged = self.0.merge_fruits(typed)?;
+        Ok(merged.into_iter().map(|(k, a)| ((self.1)(k), a)).collect())
+    }
+}
+struct DynTop(Box<dyn CollDyn>);
+impl Collector for DynTop {
+    type Fruit = Page;
+    type Child = DynSeg;
+    fn check_schema(&self, schema: &Schema) -> tantivy::Result<()> {
+        self.0.check_schema_dyn(schema)
+    }
+    fn for_segment(&self, ord: u32, seg: &SegmentReader) -> tantivy::Result<DynSeg> {
+        self.0.for_segment_dyn(ord, seg)
+    }
+    fn requires_scoring(&self) -> bool {
+        self.0.requires_scoring_dyn()
+    }
+    fn merge_fruits(&self, fruits: Vec<Box<dyn Any + Send>>) -> tantivy::Result<Page> {
+        self.0.merge_dyn(fruits)
+    }
+}
+
+fn run_erased(r: &Req, a: DynTop, b: DynTop) -> tantivy::Result<Out> {
+    let s = r.searcher;
+    let mut out = Out::default();
+    match r.shape {
+        Shape::Triple => {
+            let (c1, p, c2) = s.search(r.q, &(Count, a, Count))?;
+            out.page = p;
+            out.counts = vec![c1, c2];
+        }
+        Shape::Quad => {
+            let (p, c1, p2, c2) = s.search(r.q, &(a, Count, b, Count))?;
+            out.page = p;
+            out.page2 = Some(p2);
+            out.counts = vec![c1, c2];
+        }
+        Shape::NestedLeft => {
+            let ((p, c1), c2) = s.search(r.q, &((a, Count), Count))?;
+            out.page = p;
+            out.counts = vec![c1, c2];
+        }
+        Shape::NestedRight => {
+            let (c1, (c2, p)) = s.search(r.q, &(Count, (Count, a)))?;
+            out.page = p;
+            out.counts = vec![c1, c2];
+        }
+        Shape::NestedDeep => {
+            let ((c1, (p, c2)), p2) = s.search(r.q, &((Count, (a, Count)), b))?;
+            out.page = p;
+            out.page2 = Some(p2);
+            out.counts = vec![c1, c2];
+        }
+        Shape::OptionSome => {
+            let (p, c) = s.search(r.q, &(Some(a), None::<Count>))?;
+            out.page = p.unwrap_or_else(|| panic!("harness: Some(collector) gave no fruit"));
+            if let Some(c) = c {
+                out.counts = vec![c];
+            }
+        }
+        Shape::WithScorePage => {
+            let by_score = TopDocs::with_limit(r.k3).and_offset(r.o3).order_by_score();
+            let (p, sp) = s.search(r.q, &(a, by_score))?;
+            out.page = p;
+            out.score_page = Some(sp);
+        }
+        Shape::Filtered => {
+            let pred = r.pred;
+            let coll: FilterCollector<DynTop, _, u64> =
+                FilterCollector::new("fu".to_string(), move |v: u64| fu_pred(pred, v), a);
+            out.page = s.search(r.q, &coll)?;
+        }
+        other => panic!("harness: shape {other:?} is not an erased one"),
+    }
+    Ok(out)
+}
+
+fn run<C, T>(
+    r: &Req,
+    mk: impl Fn(usize, usize) -> C,
+    conv: impl Fn(T) -> CKey + Clone + Send + Sync + 'static,
+) -> Result<Out, String>
+where
+    C: Collector<Fruit = Vec<(T, DocAddress)>> + 'static,
+    T: Send + 'static,
+{
+    let convp = |v: Vec<(T, DocAddress)>| -> Page { v.into_iter().map(|(k, a)| (conv(k), a)).collect() };
+    let s = r.searcher;
+    let res = catch_search(|| -> tantivy::Result<Out> {
+        let mut out = Out::default();
+        match r.shape {
+            Shape::Plain => {
+                out.page = convp(s.search(r.q, &mk(r.k, r.o))?);
+            }
+            Shape::TopCount => {
+                let (p, c) = s.search(r.q, &(mk(r.k, r.o), Count))?;
+                out.page = convp(p);
+                out.counts = vec![c];
+            }
+            Shape::CountTop => {
+                let (c, p) = s.search(r.q, &(Count, mk(r.k, r.o)))?;
+                out.page = convp(p);
+                out.counts = vec![c];
+            }
+            Shape::Multi1 | Shape::MultiTopCount | Shape::MultiMany => {
+                let mut multi = MultiCollector::new();
+                let mut hc = None;
+                let mut h2 = None;
+                let mut hs = None;
+                if r.shape == Shape::MultiMany {
+                    hc = Some(multi.add_collector(Count));
+                }
+                let h1 = multi.add_collector(mk(r.k, r.o));
+                if r.shape == Shape::MultiTopCount {
+                    hc = Some(multi.add_collector(Count));
+                }
+                if r.shape == Shape::MultiMany {
+                    h2 = Some(multi.add_collector(mk(r.k2, r.o2)));
+                    hs = Some(multi.add_collector(
+                        TopDocs::with_limit(r.k3).and_offset(r.o3).order_by_score(),
+                    ));
+                }
+                let mut fruit = s.search(r.q, &multi)?;
+                // extraction order differs from insertion order on purpose
+                if let Some(h) = hs {
+                    out.score_page = Some(h.extract(&mut fruit));
+                }
+                out.page = convp(h1.extract(&mut fruit));
+                if let Some(h) = h2 {
+                    out.page2 = Some(convp(h.extract(&mut fruit)));
+                }
+                if let Some(h) = hc {
+                    out.counts = vec![h.extract(&mut fruit)];
+                }
+            }
+            _ => {
+                let a = DynTop(Box::new(Erase(mk(r.k, r.o), conv.clone())));
+                let b = DynTop(Box::new(Erase(mk(r.k2, r.o2), conv.clone())));
+                out = run_erased(r, a, b)?;
+            }
+        }
+        Ok(out)
+    });
+    match res {
+        Ok(Ok(v)) => Ok(v),
         Ok(Err(e)) => Err(e.to_string()),
         Err(p) => Err(p),
     }
@@ -547,115 +869,96 @@ fn owned(v: OwnedValue) -> K1 {
     }
 }
 
-fn do_search(
-    kind: SortKind,
-    searcher: &Searcher,
-    q: &dyn Query,
-    k: usize,
-    o: usize,
-    t: &Arc<Tables>,
-) -> Result<Vec<(CKey, DocAddress)>, String> {
-    let td = || TopDocs::with_limit(k).and_offset(o);
+fn do_search(kind: SortKind, r: &Req, t: &Arc<Tables>) -> Result<Out, String> {
+    let td = |k: usize, o: usize| TopDocs::with_limit(k).and_offset(o);
     let sc = |s: Score| CKey::One(Some(OrdVal::Sc(s)));
     match kind {
-        SortKind::Score => run(searcher, q, td().order_by_score(), sc),
-        SortKind::ScoreTopN(ord) => run(searcher, q, td().order_by((SortBySimilarityScore, ord)), sc),
-        SortKind::ScoreCmp(c) => run(searcher, q, td().order_by((SortBySimilarityScore, c.to_enum())), sc),
+        SortKind::Score => run(r, |k, o| td(k, o).order_by_score(), sc),
+        SortKind::ScoreTopN(ord) => run(r, |k, o| td(k, o).order_by((SortBySimilarityScore, ord)), sc),
+        SortKind::ScoreCmp(c) => run(r, |k, o| td(k, o).order_by((SortBySimilarityScore, c.to_enum())), sc),
         SortKind::ScoreErased(c) => run(
-            searcher,
-            q,
-            td().order_by((SortByErasedType::for_score(), c.to_enum())),
+            r,
+            |k, o| td(k, o).order_by((SortByErasedType::for_score(), c.to_enum())),
             |v: OwnedValue| CKey::One(owned(v)),
         ),
-        SortKind::U64Field(ord) => run(searcher, q, td().order_by_u64_field("fu", ord), |v: Option<u64>| {
+        SortKind::U64Field(ord) => run(r, |k, o| td(k, o).order_by_u64_field("fu", ord), |v: Option<u64>| {
             CKey::One(v.map(OrdVal::U))
         }),
-        SortKind::Fast(FF::U, ord) => run(searcher, q, td().order_by_fast_field::<u64>("fu", ord), |v| {
+        SortKind::Fast(FF::U, ord) => run(r, |k, o| td(k, o).order_by_fast_field::<u64>("fu", ord), |v| {
             CKey::One(v.map(OrdVal::U))
         }),
-        SortKind::Fast(FF::I, ord) => run(searcher, q, td().order_by_fast_field::<i64>("fi", ord), |v| {
+        SortKind::Fast(FF::I, ord) => run(r, |k, o| td(k, o).order_by_fast_field::<i64>("fi", ord), |v| {
             CKey::One(v.map(OrdVal::I))
         }),
-        SortKind::Fast(FF::F, ord) => run(searcher, q, td().order_by_fast_field::<f64>("ff", ord), |v| {
+        SortKind::Fast(FF::F, ord) => run(r, |k, o| td(k, o).order_by_fast_field::<f64>("ff", ord), |v| {
             CKey::One(v.map(OrdVal::F))
         }),
         SortKind::Fast(FF::D, ord) => run(
-            searcher,
-            q,
-            td().order_by_fast_field::<DateTime>("fd", ord),
+            r,
+            |k, o| td(k, o).order_by_fast_field::<DateTime>("fd", ord),
             |v: Option<DateTime>| CKey::One(v.map(|d| OrdVal::I(d.into_timestamp_secs()))),
         ),
-        SortKind::Fast(FF::B, ord) => run(searcher, q, td().order_by_fast_field::<bool>("fb", ord), |v| {
+        SortKind::Fast(FF::B, ord) => run(r, |k, o| td(k, o).order_by_fast_field::<bool>("fb", ord), |v| {
             CKey::One(v.map(OrdVal::B))
         }),
         SortKind::Fast(FF::S, ord) => run(
-            searcher,
-            q,
-            td().order_by_string_fast_field("fs", ord),
+            r,
+            |k, o| td(k, o).order_by_string_fast_field("fs", ord),
             |v: Option<String>| CKey::One(v.map(OrdVal::S)),
         ),
         SortKind::FastCmp(FF::U, c) => run(
-            searcher,
-            q,
-            td().order_by((SortByStaticFastValue::<u64>::for_field("fu"), c.to_enum())),
+            r,
+            |k, o| td(k, o).order_by((SortByStaticFastValue::<u64>::for_field("fu"), c.to_enum())),
             |v: Option<u64>| CKey::One(v.map(OrdVal::U)),
         ),
         SortKind::FastCmp(FF::I, c) => run(
-            searcher,
-            q,
-            td().order_by((SortByStaticFastValue::<i64>::for_field("fi"), c.to_enum())),
+            r,
+            |k, o| td(k, o).order_by((SortByStaticFastValue::<i64>::for_field("fi"), c.to_enum())),
             |v: Option<i64>| CKey::One(v.map(OrdVal::I)),
         ),
         SortKind::FastCmp(FF::F, c) => run(
-            searcher,
-            q,
-            td().order_by((SortByStaticFastValue::<f64>::for_field("ff"), c.to_enum())),
+            r,
+            |k, o| td(k, o).order_by((SortByStaticFastValue::<f64>::for_field("ff"), c.to_enum())),
             |v: Option<f64>| CKey::One(v.map(OrdVal::F)),
         ),
         SortKind::FastCmp(FF::D, c) => run(
-            searcher,
-            q,
-            td().order_by((SortByStaticFastValue::<DateTime>::for_field("fd"), c.to_enum())),
+            r,
+            |k, o| td(k, o).order_by((SortByStaticFastValue::<DateTime>::for_field("fd"), c.to_enum())),
             |v: Option<DateTime>| CKey::One(v.map(|d| OrdVal::I(d.into_timestamp_secs()))),
         ),
         SortKind::FastCmp(FF::B, c) => run(
-            searcher,
-            q,
-            td().order_by((SortByStaticFastValue::<bool>::for_field("fb"), c.to_enum())),
+            r,
+            |k, o| td(k, o).order_by((SortByStaticFastValue::<bool>::for_field("fb"), c.to_enum())),
             |v: Option<bool>| CKey::One(v.map(OrdVal::B)),
         ),
         SortKind::FastCmp(FF::S, c) => run(
-            searcher,
-            q,
-            td().order_by((SortByString::for_field("fs"), c.to_enum())),
+            r,
+            |k, o| td(k, o).order_by((SortByString::for_field("fs"), c.to_enum())),
             |v: Option<String>| CKey::One(v.map(OrdVal::S)),
         ),
         SortKind::Erased(f, c) => run(
-            searcher,
-            q,
-            td().order_by((SortByErasedType::for_field(f.field()), c.to_enum())),
+            r,
+            |k, o| td(k, o).order_by((SortByErasedType::for_field(f.field()), c.to_enum())),
             |v: OwnedValue| CKey::One(owned(v)),
         ),
-        SortKind::TweakMod7 => {
-            let t = t.clone();
-            run(
-                searcher,
-                q,
-                td().tweak_score(move |seg: &SegmentReader| {
+        SortKind::TweakMod7 => run(
+            r,
+            |k, o| {
+                let t = t.clone();
+                td(k, o).tweak_score(move |seg: &SegmentReader| {
                     let ids = seg.fast_fields().u64("id").expect("id column");
                     let t = t.clone();
                     move |doc: DocId, _score: Score| -> f32 {
                         let id = ids.first(doc).unwrap_or(u64::MAX);
                         (t.fu.get(&id).copied().unwrap_or(0) % 7) as f32
                     }
-                }),
-                sc,
-            )
-        }
+                })
+            },
+            sc,
+        ),
         SortKind::TweakTimesScore => run(
-            searcher,
-            q,
-            td().tweak_score(move |seg: &SegmentReader| {
+            r,
+            |k, o| td(k, o).tweak_score(move |seg: &SegmentReader| {
                 let ids = seg.fast_fields().u64("id").expect("id column");
                 move |doc: DocId, score: Score| -> f32 {
                     let id = ids.first(doc).unwrap_or(u64::MAX);
@@ -665,9 +968,8 @@ fn do_search(
             sc,
         ),
         SortKind::TweakU64 => run(
-            searcher,
-            q,
-            td().tweak_score(move |seg: &SegmentReader| {
+            r,
+            |k, o| td(k, o).tweak_score(move |seg: &SegmentReader| {
                 let ids = seg.fast_fields().u64("id").expect("id column");
                 move |doc: DocId, _score: Score| -> u64 {
                     let id = ids.first(doc).unwrap_or(u64::MAX);
@@ -676,28 +978,25 @@ fn do_search(
             }),
             |v: u64| CKey::One(Some(OrdVal::U(v))),
         ),
-        SortKind::Custom(None) => run(searcher, q, td().order_by(ByTable(t.clone())), |v: Option<i64>| {
+        SortKind::Custom(None) => run(r, |k, o| td(k, o).order_by(ByTable(t.clone())), |v: Option<i64>| {
             CKey::One(v.map(OrdVal::I))
         }),
         SortKind::Custom(Some(ord)) => run(
-            searcher,
-            q,
-            td().order_by((ByTable(t.clone()), ord)),
+            r,
+            |k, o| td(k, o).order_by((ByTable(t.clone()), ord)),
             |v: Option<i64>| CKey::One(v.map(OrdVal::I)),
         ),
         SortKind::TupleUI(a, b) => run(
-            searcher,
-            q,
-            td().order_by((
+            r,
+            |k, o| td(k, o).order_by((
                 (SortByStaticFastValue::<u64>::for_field("fu"), a),
                 (SortByStaticFastValue::<i64>::for_field("fi"), b),
             )),
             |v: (Option<u64>, Option<i64>)| CKey::Two(v.0.map(OrdVal::U), v.1.map(OrdVal::I)),
         ),
         SortKind::Tuple3UIF(a, b, c) => run(
-            searcher,
-            q,
-            td().order_by((
+            r,
+            |k, o| td(k, o).order_by((
                 (SortByStaticFastValue::<u64>::for_field("fu"), a),
                 (SortByStaticFastValue::<i64>::for_field("fi"), b),
                 (SortByStaticFastValue::<f64>::for_field("ff"), c),
@@ -707,9 +1006,8 @@ fn do_search(
             },
         ),
         SortKind::Tuple3BCI(a, b, c) => run(
-            searcher,
-            q,
-            td().order_by((
+            r,
+            |k, o| td(k, o).order_by((
                 (SortByStaticFastValue::<bool>::for_field("fb"), a.to_enum()),
                 (ByTable(t.clone()), b),
                 (SortByStaticFastValue::<i64>::for_field("fi"), c.to_enum()),
@@ -719,9 +1017,8 @@ fn do_search(
             },
         ),
         SortKind::Tuple3ScoreStrU(b, c) => run(
-            searcher,
-            q,
-            td().order_by((
+            r,
+            |k, o| td(k, o).order_by((
                 (SortBySimilarityScore, Order::Desc),
                 (SortByString::for_field("fs"), b),
                 (SortByStaticFastValue::<u64>::for_field("fu"), c),
@@ -731,9 +1028,8 @@ fn do_search(
             },
         ),
         SortKind::Tuple4BUSI(a, b, c, d) => run(
-            searcher,
-            q,
-            td().order_by((
+            r,
+            |k, o| td(k, o).order_by((
                 (SortByStaticFastValue::<bool>::for_field("fb"), a),
                 (SortByStaticFastValue::<u64>::for_field("fu"), b),
                 (SortByString::for_field("fs"), c),
@@ -744,9 +1040,8 @@ fn do_search(
             },
         ),
         SortKind::Tuple4UScoreDF(a, c, d) => run(
-            searcher,
-            q,
-            td().order_by((
+            r,
+            |k, o| td(k, o).order_by((
                 (SortByStaticFastValue::<u64>::for_field("fu"), a),
                 (SortBySimilarityScore, Order::Desc),
                 (SortByStaticFastValue::<DateTime>::for_field("fd"), c),
@@ -762,9 +1057,8 @@ fn do_search(
             },
         ),
         SortKind::TupleScoreStr(b) => run(
-            searcher,
-            q,
-            td().order_by(((SortBySimilarityScore, Order::Desc), (SortByString::for_field("fs"), b))),
+            r,
+            |k, o| td(k, o).order_by(((SortBySimilarityScore, Order::Desc), (SortByString::for_field("fs"), b))),
             |v: (Score, Option<String>)| CKey::Two(Some(OrdVal::Sc(v.0)), v.1.map(OrdVal::S)),
         ),
     }
@@ -1410,7 +1704,7 @@ fn any_leaf(rng: &mut Rng) -> Q {
             ws: vec![*rng.pick(&TITLE_WORDS), *rng.pick(&TITLE_WORDS)],
         },
         4 => Q::All,
-        _ => Q::Const(Box::new(body_term(rng)), *rng.pick(&[0.5f32, 1.0, 3.25])),
+        _ => Q::Const(Box::new(body_term(rng)), *rng.pick(&[0.5f32, 1.0, 3.25, 0.0, -1.5])),
     }
 }
 
@@ -1430,11 +1724,142 @@ fn distinct_body_terms(rng: &mut Rng, n: usize) -> Vec<Q> {
     out
 }
 
+/// boosts / constant scores <= 0 ("demotion" of a clause, or a clause that must not weigh in)
+const NONPOS: [f32; 7] = [-2.0, -0.5, 0.0, -1.0, 0.0, -10.0, -3.7];
+
+fn nonpos(rng: &mut Rng) -> f32 {
+    *rng.pick(&NONPOS)
+}
+
 fn maybe_boost(rng: &mut Rng, q: Q) -> Q {
     if rng.chance(1, 5) {
-        Q::Boost(Box::new(q), *rng.pick(&[0.5f32, 2.0, 3.7, 0.1, 10.0]))
+        let b = if rng.chance(1, 4) {
+            nonpos(rng)
+        } else {
+            *rng.pick(&[0.5f32, 2.0, 3.7, 0.1, 10.0])
+        };
+        Q::Boost(Box::new(q), b)
     } else {
         q
+    }
+}
+
+/// queries over the given (distinct) term clauses in which one or more clauses carry a boost or a
+/// constant score <= 0: unions, intersections, must + demoting should, a lone should clause,
+/// n-of-n should clauses. Term-only ones take the block-max paths under order_by_score.
+fn demotion(rng: &mut Rng, mut ts: Vec<Q>) -> Q {
+    let n = ts.len();
+    let neg_boost = |rng: &mut Rng, t: Q| Q::Boost(Box::new(t), nonpos(rng));
+    match rng.weighted(&[6, 4, 3, 2, 2, 1]) {
+        0 | 1 => {
+            // union (0) / intersection (1) with one or two demoted clauses
+            let occ = if n < 2 || rng.chance(3, 5) { Occur::Should } else { Occur::Must };
+            let n_neg = if n >= 3 && rng.chance(1, 3) { 2 } else { 1 };
+            let mut idx: Vec<usize> = (0..n).collect();
+            rng.shuffle(&mut idx);
+            let chosen: Vec<usize> = idx.into_iter().take(n_neg).collect();
+            let cs = ts
+                .into_iter()
+                .enumerate()
+                .map(|(i, t)| (occ, if chosen.contains(&i) { neg_boost(rng, t) } else { maybe_pos_boost(rng, t) }))
+                .collect();
+            Q::Bool(cs)
+        }
+        2 => {
+            // must + demoting should clauses
+            let first = ts.remove(0);
+            let mut cs = vec![(Occur::Must, first)];
+            for t in ts {
+                cs.push((Occur::Should, neg_boost(rng, t)));
+            }
+            Q::Bool(cs)
+        }
+        3 => {
+            // the demoted clause is a constant score
+            let last = ts.pop().expect("at least one term");
+            let mut cs: Vec<(Occur, Q)> = ts.into_iter().map(|t| (Occur::Should, t)).collect();
+            cs.push((Occur::Should, Q::Const(Box::new(last), nonpos(rng))));
+            Q::Bool(cs)
+        }
+        4 => {
+            // a lone (demoted) should clause, possibly with an excluded one
+            let t = ts.remove(0);
+            let mut cs = vec![(Occur::Should, neg_boost(rng, t))];
+            if !ts.is_empty() && rng.chance(1, 3) {
+                cs.push((Occur::MustNot, ts.remove(0)));
+            }
+            Q::Bool(cs)
+        }
+        _ => {
+            let need = if rng.bool() { n } else { rng.urange(1, n) };
+            let which = rng.usize_below(n);
+            let qs = ts
+                .into_iter()
+                .enumerate()
+                .map(|(i, t)| if i == which { neg_boost(rng, t) } else { t })
+                .collect();
+            Q::MinShould(qs, need)
+        }
+    }
+}
+
+fn maybe_pos_boost(rng: &mut Rng, q: Q) -> Q {
+    if rng.chance(1, 4) {
+        Q::Boost(Box::new(q), *rng.pick(&[0.5f32, 2.0, 3.7]))
+    } else {
+        q
+    }
+}
+
+/// some boost or constant score of the query is negative
+fn has_negative(q: &Q) -> bool {
+    match q {
+        Q::Term { .. } | Q::Tag(_) | Q::Phrase { .. } | Q::All => false,
+        Q::Bool(cs) => cs.iter().any(|(o, c)| *o != Occur::MustNot && has_negative(c)),
+        Q::MinShould(qs, _) | Q::DisMax(qs, _) => qs.iter().any(has_negative),
+        Q::Boost(inner, b) => *b < 0.0 || has_negative(inner),
+        Q::Const(_, c) => *c < 0.0,
+    }
+}
+
+/// some boost or constant score of the query is <= 0
+fn has_nonpositive(q: &Q) -> bool {
+    match q {
+        Q::Term { .. } | Q::Tag(_) | Q::Phrase { .. } | Q::All => false,
+        Q::Bool(cs) => cs.iter().any(|(o, c)| *o != Occur::MustNot && has_nonpositive(c)),
+        Q::MinShould(qs, _) | Q::DisMax(qs, _) => qs.iter().any(has_nonpositive),
+        Q::Boost(inner, b) => *b <= 0.0 || has_nonpositive(inner),
+        Q::Const(_, c) => *c <= 0.0,
+    }
+}
+
+/// the same query with every boost and constant score replaced by its absolute value (same
+/// matches; every document's score is the sum of the magnitudes of its addends)
+fn abs_twin(q: &Q) -> Q {
+    match q {
+        Q::Term { .. } | Q::Tag(_) | Q::Phrase { .. } | Q::All => q.clone(),
+        Q::Bool(cs) => Q::Bool(cs.iter().map(|(o, c)| (*o, abs_twin(c))).collect()),
+        Q::MinShould(qs, n) => Q::MinShould(qs.iter().map(abs_twin).collect(), *n),
+        Q::DisMax(qs, t) => Q::DisMax(qs.iter().map(abs_twin).collect(), *t),
+        Q::Boost(inner, b) => Q::Boost(Box::new(abs_twin(inner)), b.abs()),
+        Q::Const(inner, c) => Q::Const(inner.clone(), c.abs()),
+    }
+}
+
+/// some term clause of the query is scored with a NEGATIVE weight (the product of the boosts
+/// around it is negative). Boolean queries hand the term scorers of their clauses - also the one
+/// scorer a nested boolean clause collapses to in a segment where its other clauses match
+/// nothing - to block_wand / block_wand_single_scorer / block_wand_intersection under
+/// TopDocs::order_by_score.
+fn negatively_weighted_term(q: &Q, negative: bool) -> bool {
+    match q {
+        Q::Term { .. } => negative,
+        Q::Tag(_) | Q::Phrase { .. } | Q::All | Q::Const(..) => false,
+        Q::Bool(cs) => cs
+            .iter()
+            .any(|(o, c)| *o != Occur::MustNot && negatively_weighted_term(c, negative)),
+        Q::MinShould(qs, _) | Q::DisMax(qs, _) => qs.iter().any(|c| negatively_weighted_term(c, negative)),
+        Q::Boost(inner, b) => *b != 0.0 && negatively_weighted_term(inner, negative ^ (*b < 0.0)),
     }
 }
 
@@ -1468,7 +1893,7 @@ fn tree(rng: &mut Rng, depth: usize) -> Q {
             let m = rng.urange(1, n);
             Q::MinShould(qs, m)
         }
-        _ => Q::Const(Box::new(tree(rng, depth - 1)), *rng.pick(&[0.25f32, 1.0, 2.0])),
+        _ => Q::Const(Box::new(tree(rng, depth - 1)), *rng.pick(&[0.25f32, 1.0, 2.0, 0.0, -0.75])),
     }
 }
 
@@ -1519,11 +1944,18 @@ fn wide_intersection(rng: &mut Rng, dense: bool) -> Q {
 
 fn gen_query(rng: &mut Rng, mode: Mode) -> (Q, &'static str) {
     let dense = mode == Mode::Dense;
-    match rng.weighted(&[5, 2, 6, 6, 2, 5, if dense { 14 } else { 3 }]) {
+    match rng.weighted(&[5, 2, 6, 6, 2, 5, if dense { 14 } else { 3 }, 5]) {
         6 => (wide_intersection(rng, dense), "wide-term-intersection"),
+        7 => {
+            let n = *rng.pick(&[1usize, 2, 2, 2, 3, 3, 4]);
+            let ts = distinct_body_terms(rng, n);
+            (demotion(rng, ts), "non-positive-boost")
+        }
         0 => (body_term(rng), "term"),
         1 => {
-            let q = match rng.below(4) {
+            let q = match rng.below(6) {
+                4 => Q::Boost(Box::new(body_term(rng)), nonpos(rng)),
+                5 => Q::Const(Box::new(body_term(rng)), nonpos(rng)),
                 0 => Q::Tag(rng.below(5) as u8),
                 1 => Q::Term {
                     f: TF::Body,
@@ -1569,10 +2001,18 @@ fn is_exact(q: &Q) -> bool {
     if q.n_leaves() == 1 {
         return true;
     }
+    // (a boosted term clause is one term scorer with a scaled weight, a constant clause one value)
+    let simple = |c: &Q| match c {
+        Q::Term { .. } | Q::Tag(_) => true,
+        Q::Boost(inner, _) | Q::Const(inner, _) => matches!(&**inner, Q::Term { .. } | Q::Tag(_)),
+        _ => false,
+    };
     if let Q::Bool(cs) = q {
         let scoring: Vec<&Q> = cs.iter().filter(|(o, _)| *o != Occur::MustNot).map(|(_, q)| q).collect();
-        return scoring.len() == 2
-            && cs.iter().all(|(_, q)| matches!(q, Q::Term { .. } | Q::Tag(_)));
+        return scoring.len() == 2 && cs.iter().all(|(_, q)| simple(q));
+    }
+    if let Q::MinShould(qs, _) = q {
+        return qs.len() == 2 && qs.iter().all(simple);
     }
     false
 }
@@ -1586,6 +2026,29 @@ struct Ctx6<'a> {
     qkind: &'static str,
     kind: SortKind,
     n_leaves: usize,
+    /// "" for a plain TopDocs search, the shape for a composed one (goes into the witness; the
+    /// signature of a composed search starts with `composed-collector:`)
+    shape: Shape,
+    /// queries with negative boosts: per document, the score of the same query with every boost
+    /// and constant replaced by its absolute value, i.e. (up to rounding) the sum of the
+    /// magnitudes of the addends; the rounding error of a sum with cancellation is relative to
+    /// that magnitude, not to the value of the sum
+    mags: Option<&'a HashMap<DocAddress, f32>>,
+}
+
+impl Ctx6<'_> {
+    fn sig_prefix(&self) -> &'static str {
+        if self.shape == Shape::Plain {
+            ""
+        } else {
+            "composed-collector:"
+        }
+    }
+    /// rounding tolerance of the score `s` of document `a` (float sum of n clauses)
+    fn tol(&self, a: &DocAddress, s: f32) -> f32 {
+        let mag = self.mags.and_then(|m| m.get(a)).copied().unwrap_or(0.0).abs().max(s.abs());
+        4.0 * self.n_leaves as f32 * ulp(mag)
+    }
 }
 
 fn brief(list: &[(CKey, DocAddress)], from: usize) -> Vec<Value> {
@@ -1594,6 +2057,69 @@ fn brief(list: &[(CKey, DocAddress)], from: usize) -> Vec<Value> {
         .take(6)
         .map(|(k, a)| json!([a.segment_ord, a.doc_id, k.js()]))
         .collect()
+}
+
+/// exact comparison of one page with entries O..O+K of the complete order: (problem, position of
+/// the first difference), None when the page is right
+fn diagnose_exact(
+    spec: CmpSpec,
+    expected_all: &[(CKey, Hit)],
+    got: &[(CKey, DocAddress)],
+    k: usize,
+    o: usize,
+) -> Option<(&'static str, usize)> {
+    let m = expected_all.len();
+    let lo = o.min(m);
+    let hi = (o + k).min(m);
+    let exp = &expected_all[lo..hi];
+    if exp.len() != got.len() {
+        return Some(("page-length", 0));
+    }
+    for (i, ((ek, eh), (gk, ga))) in exp.iter().zip(got.iter()).enumerate() {
+        if eh.addr != *ga {
+            // classify
+            let got_set: HashSet<DocAddress> = got.iter().map(|x| x.1).collect();
+            let exp_set: HashSet<DocAddress> = exp.iter().map(|x| x.1.addr).collect();
+            let problem = if got_set == exp_set {
+                "order-within-page"
+            } else if got_set.len() != got.len() {
+                "duplicate-document"
+            } else {
+                // is some expected doc missing whose key is strictly better than a returned one?
+                let keys: HashMap<DocAddress, &CKey> = expected_all.iter().map(|(k, h)| (h.addr, k)).collect();
+                let mut strictly = false;
+                let mut unknown = false;
+                for (ek2, eh2) in exp.iter() {
+                    if !got_set.contains(&eh2.addr) {
+                        for (_, ga2) in got.iter() {
+                            if !exp_set.contains(ga2) {
+                                match keys.get(ga2) {
+                                    None => unknown = true,
+                                    Some(gk2) => {
+                                        if spec.rank(ek2, gk2) == Ordering::Less {
+                                            strictly = true;
+                                        }
+                                    }
+                                }
+                            }
+                        }
+                    }
+                }
+                if unknown {
+                    "returned-document-not-a-match"
+                } else if strictly {
+                    "strictly-better-document-left-out"
+                } else {
+                    "tie-not-broken-by-ascending-address"
+                }
+            };
+            return Some((problem, i));
+        }
+        if !ek.same(gk) {
+            return Some(("returned-key-differs-from-true-key", i));
+        }
+    }
+    None
 }
 
 /// exact comparison of one page; returns false when a violation was reported
@@ -1611,61 +2137,9 @@ fn check_exact(
     let lo = o.min(m);
     let hi = (o + k).min(m);
     let exp = &expected_all[lo..hi];
-    let mut problem: Option<&'static str> = None;
-    let mut at = 0usize;
-    if exp.len() != got.len() {
-        problem = Some("page-length");
-    } else {
-        for (i, ((ek, eh), (gk, ga))) in exp.iter().zip(got.iter()).enumerate() {
-            if eh.addr != *ga {
-                at = i;
-                // classify
-                let got_set: HashSet<DocAddress> = got.iter().map(|x| x.1).collect();
-                let exp_set: HashSet<DocAddress> = exp.iter().map(|x| x.1.addr).collect();
-                problem = Some(if got_set == exp_set {
-                    "order-within-page"
-                } else if got_set.len() != got.len() {
-                    "duplicate-document"
-                } else {
-                    // is some expected doc missing whose key is strictly better than a returned one?
-                    let spec = c.kind.cmp();
-                    let keys: HashMap<DocAddress, &CKey> =
-                        expected_all.iter().map(|(k, h)| (h.addr, k)).collect();
-                    let mut strictly = false;
-                    let mut unknown = false;
-                    for (ek2, eh2) in exp.iter() {
-                        if !got_set.contains(&eh2.addr) {
-                            for (_, ga2) in got.iter() {
-                                if !exp_set.contains(ga2) {
-                                    match keys.get(ga2) {
-                                        None => unknown = true,
-                                        Some(gk2) => {
-                                            if spec.rank(ek2, gk2) == Ordering::Less {
-                                                strictly = true;
-                                            }
-                                        }
-                                    }
-                                }
-                            }
-                        }
-                    }
-                    if unknown {
-                        "returned-document-not-a-match"
-                    } else if strictly {
-                        "strictly-better-document-left-out"
-                    } else {
-                        "tie-not-broken-by-ascending-address"
-                    }
-                });
-                break;
-            }
-            if !ek.same(gk) {
-                at = i;
-                problem = Some("returned-key-differs-from-true-key");
-                break;
-            }
-        }
-    }
+    let diag = diagnose_exact(c.kind.cmp(), expected_all, got, k, o);
+    let problem = diag.map(|d| d.0);
+    let at = diag.map(|d| d.1).unwrap_or(0);
     if let Some(p) = problem {
         if std::env::var("C06_DEBUG").is_ok() {
             eprintln!("problem {p} K={k} O={o} expected head: {:?}", expected_all.iter().take(8).map(|(k, h)| (h.addr, k.js().to_string(), h.id)).collect::<Vec<_>>());
@@ -1680,11 +2154,14 @@ fn check_exact(
             c.kind.cmp(),
             CmpSpec::Four(a, b, cc, d) if [a, b, cc, d].iter().any(|x| *x != Cmp1::Natural)
         );
-        let sig = if four_with_order {
-            format!("tuple4-key-ignores-component-order:{p}")
-        } else if p == "strictly-better-document-left-out" && !extra_sig.is_empty() {
+        let sig = if extra_sig == "negboost" {
+            // a fourth one (see `negative_boost_attribution`)
+            format!("negative-boost-block-wand-bound:{p}")
+        } else if four_with_order {
+            format!("{}tuple4-key-ignores-component-order:{p}", c.sig_prefix())
+        } else if p == "strictly-better-document-left-out" && extra_sig == "stale" {
             format!("block-max-segment-local-avgdl:{p}[{}]", c.kind.family())
-        } else if p == "tie-not-broken-by-ascending-address" && !extra_sig.is_empty() {
+        } else if p == "tie-not-broken-by-ascending-address" && extra_sig == "stale" {
             // the same defect seen through a tie: the document whose block was skipped on a stale
             // bound has exactly the score of the document that took its place (from another
             // segment or a later block), so the symptom is a wrong tie-break instead of a worse key
@@ -1696,11 +2173,12 @@ fn check_exact(
             // (the former `merge-unsorted-segment-results:` attribution is gone: that defect was
             // repaired in /repo ee7ed766f; `merge_truncates` only feeds a reach counter now)
             let _ = merge_truncates;
-            format!("{}:{}", c.kind.family(), p)
+            format!("{}{}:{}", c.sig_prefix(), c.kind.family(), p)
         };
         rep.violation(
             sig,
             json!({
+                "collector": c.shape.name(),
                 "sort": c.kind.name(), "query": c.qdesc, "query_kind": c.qkind, "K": k, "O": o,
                 "matches": m, "first_difference_at": at,
                 "expected_from_diff": exp.iter().skip(at).take(6).map(|(k, h)| json!([h.addr.segment_ord, h.addr.doc_id, k.js()])).collect::<Vec<_>>(),
@@ -1714,7 +2192,63 @@ fn check_exact(
     true
 }
 
-/// tolerance comparison for score keys that are float sums of >= 3 clauses
+/// tolerance comparison for score keys that are float sums of >= 3 clauses: (problem, position)
+fn diagnose_approx(
+    c: &Ctx6,
+    expected_all: &[(CKey, Hit)],
+    got: &[(CKey, DocAddress)],
+    k: usize,
+    o: usize,
+) -> Option<(&'static str, usize)> {
+    let m = expected_all.len();
+    let lo = o.min(m);
+    let hi = (o + k).min(m);
+    let spec = c.kind.cmp();
+    let by_addr: HashMap<DocAddress, f32> = expected_all.iter().map(|(_, h)| (h.addr, h.score)).collect();
+    if got.len() != hi - lo {
+        return Some(("page-length", 0));
+    }
+    let mut seen = HashSet::new();
+    for (i, (gk, ga)) in got.iter().enumerate() {
+        let Some(gs) = gk.score() else {
+            return Some(("returned-key-not-a-score", i));
+        };
+        if !seen.insert(*ga) {
+            return Some(("duplicate-document", i));
+        }
+        let Some(&es) = by_addr.get(ga) else {
+            return Some(("returned-document-not-a-match", i));
+        };
+        if (gs - es).abs() > c.tol(ga, es) {
+            return Some(("returned-score-differs-from-exhaustive-beyond-rounding", i));
+        }
+        // the document at global rank lo+i of the exhaustive order must have (within
+        // rounding) the same score: otherwise a strictly better one was left out or a
+        // strictly worse one got in
+        let rank = &expected_all[lo + i].1;
+        let rank_score = rank.score;
+        if (es - rank_score).abs() > 2.0 * c.tol(ga, es).max(c.tol(&rank.addr, rank_score)) {
+            return Some((
+                if matches!(spec, CmpSpec::One(Cmp1::Natural | Cmp1::NaturalNoneHigher)) == (es < rank_score) {
+                    "strictly-better-document-left-out"
+                } else {
+                    "document-ranked-too-low"
+                },
+                i,
+            ));
+        }
+        // the returned list must be sorted by its own keys, ties by address
+        if i > 0 {
+            let (pk, pa) = &got[i - 1];
+            let r = spec.rank(pk, gk);
+            if r == Ordering::Greater || (r == Ordering::Equal && pa >= ga) {
+                return Some(("returned-list-not-sorted-by-its-own-keys-and-address", i));
+            }
+        }
+    }
+    None
+}
+
 fn check_approx(
     rep: &mut Report,
     c: &Ctx6,
@@ -1727,66 +2261,25 @@ fn check_approx(
     let m = expected_all.len();
     let lo = o.min(m);
     let hi = (o + k).min(m);
-    let spec = c.kind.cmp();
-    let by_addr: HashMap<DocAddress, f32> = expected_all.iter().map(|(_, h)| (h.addr, h.score)).collect();
-    let tol = |s: f32| 4.0 * c.n_leaves as f32 * ulp(s);
-    let mut problem: Option<(&'static str, usize)> = None;
-    if got.len() != hi - lo {
-        problem = Some(("page-length", 0));
-    } else {
-        let mut seen = HashSet::new();
-        for (i, (gk, ga)) in got.iter().enumerate() {
-            let Some(gs) = gk.score() else {
-                problem = Some(("returned-key-not-a-score", i));
-                break;
-            };
-            if !seen.insert(*ga) {
-                problem = Some(("duplicate-document", i));
-                break;
-            }
-            let Some(&es) = by_addr.get(ga) else {
-                problem = Some(("returned-document-not-a-match", i));
-                break;
-            };
-            if (gs - es).abs() > tol(es) {
-                problem = Some(("returned-score-differs-from-exhaustive-beyond-rounding", i));
-                break;
-            }
-            // the document at global rank lo+i of the exhaustive order must have (within
-            // rounding) the same score: otherwise a strictly better one was left out or a
-            // strictly worse one got in
-            let rank_score = expected_all[lo + i].1.score;
-            if (es - rank_score).abs() > 2.0 * tol(rank_score.max(es)) {
-                problem = Some((
-                    if matches!(spec, CmpSpec::One(Cmp1::Natural | Cmp1::NaturalNoneHigher)) == (es < rank_score) {
-                        "strictly-better-document-left-out"
-                    } else {
-                        "document-ranked-too-low"
-                    },
-                    i,
-                ));
-                break;
-            }
-            // the returned list must be sorted by its own keys, ties by address
-            if i > 0 {
-                let (pk, pa) = &got[i - 1];
-                let r = spec.rank(pk, gk);
-                if r == Ordering::Greater || (r == Ordering::Equal && pa >= ga) {
-                    problem = Some(("returned-list-not-sorted-by-its-own-keys-and-address", i));
-                    break;
-                }
+    if let Some((p, at)) = diagnose_approx(c, expected_all, got, k, o) {
+        if std::env::var("C06_DEBUG").is_ok() {
+            let by: HashMap<DocAddress, f32> = expected_all.iter().map(|(_, h)| (h.addr, h.score)).collect();
+            eprintln!("approx problem {p} at {at} K={k} O={o} query {}", c.qdesc);
+            for (gk, ga) in got.iter().skip(at.saturating_sub(1)).take(4) {
+                eprintln!("   got {:?} {} exhaustive {:?} mag {:?}", ga, gk.js(), by.get(ga), c.mags.and_then(|m| m.get(ga)));
             }
         }
-    }
-    if let Some((p, at)) = problem {
-        let sig = if p == "strictly-better-document-left-out" && !extra_sig.is_empty() {
+        let sig = if extra_sig == "negboost" {
+            format!("negative-boost-block-wand-bound:{p}[float-sum]")
+        } else if p == "strictly-better-document-left-out" && extra_sig == "stale" {
             format!("block-max-segment-local-avgdl:{p}[{},float-sum]", c.kind.family())
         } else {
-            format!("{}:{}[float-sum]", c.kind.family(), p)
+            format!("{}{}:{}[float-sum]", c.sig_prefix(), c.kind.family(), p)
         };
         rep.violation(
             sig,
             json!({
+                "collector": c.shape.name(),
                 "sort": c.kind.name(), "query": c.qdesc, "query_kind": c.qkind, "K": k, "O": o,
                 "matches": m, "at": at, "clauses": c.n_leaves,
                 "expected_around": expected_all[lo..hi].iter().skip(at).take(6).map(|(k, h)| json!([h.addr.segment_ord, h.addr.doc_id, k.js()])).collect::<Vec<_>>(),
@@ -1882,29 +2375,45 @@ fn stale_block_max(
     Some(tff(stored.0, stored.1, global_avg) < max_global)
 }
 
-fn case(case: u64, rng: &mut Rng, rep: &mut Report, quick: bool) {
-    let corpus = gen_corpus(rng, quick);
+/// everything a query round needs about one corpus
+struct Env {
+    case: u64,
+    corpus: Corpus,
+    sch: Sch,
+    _index: Index,
+    searcher: Searcher,
+    tables: Arc<Tables>,
+    by_id: HashMap<u64, usize>,
+    corpus_desc: Value,
+    nseg: usize,
+    exec: String,
+    has_deletes: bool,
+    empty_column: BTreeMap<&'static str, bool>,
+    /// tiny corpus: the whole (K, O) grid is searched, plain and composed
+    small: bool,
+}
+
+fn setup(case: u64, corpus: Corpus, threads: usize, rep: &mut Report, small: bool) -> Option<Env> {
     let sch = mk_schema(corpus.body_opt);
     let index: Index = match build_index(&sch, &corpus.docs, &corpus.cuts, &corpus.deletes, 0) {
         Ok(i) => i,
         Err((call, e)) => {
             rep.violation(format!("api-error:{call}"), json!({"error": e}));
-            return;
+            return None;
         }
     };
-    let threads = *rng.pick(&[0usize, 0, 0, 2, 4]);
     let mut index = index;
     if threads > 0 {
         if let Err(e) = index.set_multithread_executor(threads) {
             rep.violation("api-error:set_multithread_executor", json!({"error": e.to_string()}));
-            return;
+            return None;
         }
     }
     let reader = match index.reader() {
         Ok(r) => r,
         Err(e) => {
             rep.violation("api-error:reader", json!({"error": e.to_string()}));
-            return;
+            return None;
         }
     };
     let searcher = reader.searcher();
@@ -1978,213 +2487,308 @@ fn case(case: u64, rng: &mut Rng, rep: &mut Report, quick: bool) {
             empty_column.insert(f.field(), any_empty);
         }
     }
-    let nq = 8;
-    for qi in 0..nq {
-        let (q, qkind) = gen_query(rng, corpus.mode);
-        let qdesc = q.describe();
-        let query = q.to_query(&sch);
-        let exact_q = is_exact(&q);
-        let n_leaves = q.n_leaves().max(1);
-        let hits: Vec<Hit> = match catch_search(|| searcher.search(&*query, &Exhaustive)) {
-            Ok(Ok(h)) => h,
+    Some(Env {
+        case,
+        corpus,
+        sch,
+        _index: index,
+        searcher,
+        tables,
+        by_id,
+        corpus_desc,
+        nseg,
+        exec,
+        has_deletes,
+        empty_column,
+        small,
+    })
+}
+
+fn case(case: u64, rng: &mut Rng, rep: &mut Report, quick: bool) {
+    let corpus = gen_corpus(rng, quick);
+    let threads = *rng.pick(&[0usize, 0, 0, 2, 4]);
+    let Some(env) = setup(case, corpus, threads, rep, false) else {
+        return;
+    };
+    for qi in 0..8 {
+        let (q, qkind) = gen_query(rng, env.corpus.mode);
+        query_round(&env, rng, rep, &q, qkind, qi);
+    }
+}
+
+fn query_round(env: &Env, rng: &mut Rng, rep: &mut Report, q: &Q, qkind: &'static str, qi: usize) {
+    let Env {
+        corpus,
+        sch,
+        searcher,
+        tables,
+        by_id,
+        corpus_desc,
+        exec,
+        empty_column,
+        ..
+    } = env;
+    let (case, nseg, has_deletes, small) = (env.case, env.nseg, env.has_deletes, env.small);
+    let qdesc = q.describe();
+    let query = q.to_query(&sch);
+    let exact_q = is_exact(&q);
+    let n_leaves = q.n_leaves().max(1);
+    let hits: Vec<Hit> = match catch_search(|| searcher.search(&*query, &Exhaustive)) {
+        Ok(Ok(h)) => h,
+        Ok(Err(e)) => {
+            rep.violation(
+                "api-error:search[exhaustive]",
+                json!({"error": e.to_string(), "query": qdesc, "corpus": corpus_desc}),
+            );
+            return;
+        }
+        Err(p) => {
+            rep.violation(
+                panic_sig(&p),
+                json!({"panic": p, "collector": "exhaustive scoring collector (Weight::for_each)", "query": qdesc, "corpus": corpus_desc}),
+            );
+            return;
+        }
+    };
+    rep.count("exhaustive_passes", 1);
+    let m = hits.len();
+    rep.count("matches_scored_exhaustively", m as u64);
+    if hits.iter().any(|h| !by_id.contains_key(&h.id)) {
+        rep.harness_error(format!("case {case}: exhaustive hit with unknown id"));
+        return;
+    }
+    // boosts / constant scores <= 0
+    let neg_q = has_negative(q);
+    if has_nonpositive(q) {
+        rep.count("queries_with_a_boost_or_constant_score_<=0", 1);
+        rep.observe("non_positive_boost_query_kind", qkind);
+    }
+    if hits.iter().any(|h| h.score <= 0.0) {
+        rep.count("queries_with_matches_scored_<=0", 1);
+    }
+    // float sums with negative addends: the rounding tolerance is relative to the magnitude of the
+    // addends, obtained from the same exhaustive collector on the |boost| twin of the query
+    let mags: Option<HashMap<DocAddress, f32>> = if neg_q && !exact_q {
+        let twin = abs_twin(q).to_query(sch);
+        match catch_search(|| searcher.search(&*twin, &Exhaustive)) {
+            Ok(Ok(h)) => {
+                rep.count("exhaustive_passes_on_the_absolute_boost_twin", 1);
+                Some(h.into_iter().map(|h| (h.addr, h.score)).collect())
+            }
             Ok(Err(e)) => {
                 rep.violation(
                     "api-error:search[exhaustive]",
-                    json!({"error": e.to_string(), "query": qdesc, "corpus": corpus_desc}),
+                    json!({"error": e.to_string(), "query": abs_twin(q).describe(), "corpus": corpus_desc}),
                 );
-                continue;
+                return;
             }
             Err(p) => {
                 rep.violation(
                     panic_sig(&p),
-                    json!({"panic": p, "collector": "exhaustive scoring collector (Weight::for_each)", "query": qdesc, "corpus": corpus_desc}),
+                    json!({"panic": p, "collector": "exhaustive scoring collector (Weight::for_each)", "query": abs_twin(q).describe(), "corpus": corpus_desc}),
                 );
-                continue;
+                return;
             }
-        };
-        rep.count("exhaustive_passes", 1);
-        let m = hits.len();
-        rep.count("matches_scored_exhaustively", m as u64);
-        if hits.iter().any(|h| !by_id.contains_key(&h.id)) {
-            rep.harness_error(format!("case {case}: exhaustive hit with unknown id"));
-            return;
         }
-        // posting-list shape of the query terms (reach evidence + non-triviality)
-        let mut terms = vec![];
-        q.terms(&mut terms);
-        let mut max_df_seg = 0u32;
-        for (f, w) in &terms {
-            let t = Term::from_field_text(Q::field(&sch, *f), &word(*w));
-            for seg in searcher.segment_readers() {
-                if let Ok(inv) = seg.inverted_index(t.field()) {
-                    if let Ok(df) = inv.doc_freq(&t) {
-                        max_df_seg = max_df_seg.max(df);
-                    }
+    } else {
+        None
+    };
+    // complete order by relevance score (for the TopDocs-by-score companion of composed searches)
+    let mut expected_by_score: Vec<(CKey, Hit)> = hits
+        .iter()
+        .map(|h| (CKey::One(Some(OrdVal::Sc(h.score))), *h))
+        .collect();
+    expected_by_score.sort_by(|a, b| {
+        b.1.score
+            .partial_cmp(&a.1.score)
+            .expect("no NaN score")
+            .then_with(|| a.1.addr.cmp(&b.1.addr))
+    });
+    let neg_block_wand_query = matches!(q, Q::Bool(_) | Q::MinShould(..)) && negatively_weighted_term(q, false);
+    // posting-list shape of the query terms (reach evidence + non-triviality)
+    let mut terms = vec![];
+    q.terms(&mut terms);
+    let mut max_df_seg = 0u32;
+    for (f, w) in &terms {
+        let t = Term::from_field_text(Q::field(&sch, *f), &word(*w));
+        for seg in searcher.segment_readers() {
+            if let Ok(inv) = seg.inverted_index(t.field()) {
+                if let Ok(df) = inv.doc_freq(&t) {
+                    max_df_seg = max_df_seg.max(df);
                 }
             }
         }
-        // queries made of term clauses only (possibly boosted): the ones that can take a
-        // block-max pruning path
-        let is_term = |c: &Q| match c {
-            Q::Term { .. } => true,
-            Q::Boost(inner, _) => matches!(&**inner, Q::Term { .. }),
+    }
+    // queries made of term clauses only (possibly boosted): the ones that can take a
+    // block-max pruning path
+    let is_term = |c: &Q| match c {
+        Q::Term { .. } => true,
+        Q::Boost(inner, _) => matches!(&**inner, Q::Term { .. }),
+        _ => false,
+    };
+    let pruning_terms: Option<Vec<(TF, u16)>> = match &q {
+        c if is_term(c) => Some(terms.clone()),
+        Q::Bool(cs) if cs.iter().all(|(_, c)| is_term(c)) => Some(terms.clone()),
+        Q::MinShould(cs, _) if cs.iter().all(is_term) => Some(terms.clone()),
+        _ => None,
+    };
+    let blk = if max_df_seg > 4096 {
+        ">4096"
+    } else if max_df_seg > 128 {
+        ">128"
+    } else {
+        "<=128"
+    };
+    rep.observe("longest_posting_list_in_a_segment", blk);
+    rep.observe("query_kind", qkind);
+    if let (Some(pt), Q::Bool(_) | Q::MinShould(..)) = (&pruning_terms, &q) {
+        let all_must = match &q {
+            Q::Bool(cs) => cs.iter().all(|(o, _)| *o == Occur::Must),
+            Q::MinShould(cs, need) => *need == cs.len(),
             _ => false,
         };
-        let pruning_terms: Option<Vec<(TF, u16)>> = match &q {
-            c if is_term(c) => Some(terms.clone()),
-            Q::Bool(cs) if cs.iter().all(|(_, c)| is_term(c)) => Some(terms.clone()),
-            Q::MinShould(cs, _) if cs.iter().all(is_term) => Some(terms.clone()),
-            _ => None,
-        };
-        let blk = if max_df_seg > 4096 {
-            ">4096"
-        } else if max_df_seg > 128 {
-            ">128"
+        if all_must {
+            rep.observe("term_conjunction_width", pt.len().min(9).to_string());
+            if pt.len() >= 4 && m >= 2 {
+                rep.count("conjunctions_of_4_or_more_term_clauses_with_matches", 1);
+            }
+        }
+    }
+    rep.observe("key_comparison", if exact_q { "exact" } else { "float-sum-tolerance" });
+    // matches per segment (for the attribution of the merge defect, see below)
+    let mut per_seg: BTreeMap<u32, usize> = BTreeMap::new();
+    for h in &hits {
+        *per_seg.entry(h.addr.segment_ord).or_insert(0) += 1;
+    }
+    // the grid of (K, O): the K values of the property, plus mid-size K (several segments
+    // deliver full per-segment lists, so the merge has to truncate)
+    let mut ks: Vec<usize> = vec![1, 2, 10, m + 5];
+    if m >= 2 {
+        ks.push(m - 1);
+    }
+    if m >= 1 {
+        ks.push(m);
+    }
+    if m >= 8 {
+        ks.push(m / 2);
+        ks.push(m / 3);
+        ks.push(rng.urange(3, m - 1));
+    }
+    // plan: (kind, K, O, is_paging_page)
+    let mut plan: Vec<(SortKind, usize, usize, bool)> = vec![];
+    if small {
+        // tiny corpus: the whole (K, O) grid for order_by_score and three more sort kinds
+        let mut kinds = vec![SortKind::Score];
+        for _ in 0..3 {
+            kinds.push(random_sort_kind(rng, exact_q));
+        }
+        let mut gk: Vec<usize> = (1..=(m + 1).min(5)).collect();
+        let mut go: Vec<usize> = (0..=m.min(4)).collect();
+        for x in [m, m + 1] {
+            if x >= 1 && !gk.contains(&x) {
+                gk.push(x);
+            }
+            if !go.contains(&x) {
+                go.push(x);
+            }
+        }
+        for kind in kinds {
+            for &k in &gk {
+                for &o in &go {
+                    plan.push((kind, k, o, false));
+                }
+            }
+        }
+    }
+    let n_searches = if small {
+        0
+    } else if qi == 0 {
+        10
+    } else {
+        8
+    };
+    for si in 0..n_searches {
+        let kind = if si < 3 { SortKind::Score } else { random_sort_kind(rng, exact_q) };
+        let k = if m >= 8 && nseg >= 3 && rng.chance(1, 3) {
+            rng.urange(2, m / 2 + 1)
         } else {
-            "<=128"
+            *rng.pick(&ks)
         };
-        rep.observe("longest_posting_list_in_a_segment", blk);
-        rep.observe("query_kind", qkind);
-        if let (Some(pt), Q::Bool(_) | Q::MinShould(..)) = (&pruning_terms, &q) {
-            let all_must = match &q {
-                Q::Bool(cs) => cs.iter().all(|(o, _)| *o == Occur::Must),
-                Q::MinShould(cs, need) => *need == cs.len(),
-                _ => false,
-            };
-            if all_must {
-                rep.observe("term_conjunction_width", pt.len().min(9).to_string());
-                if pt.len() >= 4 && m >= 2 {
-                    rep.count("conjunctions_of_4_or_more_term_clauses_with_matches", 1);
+        let o = match rng.below(4) {
+            0 => 0,
+            1 => 1,
+            2 => k,
+            _ => m + rng.urange(0, 3),
+        };
+        plan.push((kind, k, o, false));
+    }
+    // queries that can take a block-max path over posting lists with full blocks: more
+    // order_by_score searches with a K far below the number of matches (the threshold rises
+    // early and whole blocks / candidates have to be skipped on the stored bounds)
+    if pruning_terms.is_some() && max_df_seg > 128 && m >= 3 {
+        for _ in 0..3 {
+            let k = (*rng.pick(&[1usize, 2, 3, 5, 10, 20, 50])).min(m - 1);
+            let o = *rng.pick(&[0usize, 0, 0, 1, 3]);
+            plan.push((SortKind::Score, k, o, false));
+            rep.count("extra_small_K_score_searches_on_block_max_paths", 1);
+        }
+    }
+    // four or more segments that each hold more matches than O+K: every per-segment top list
+    // is cut to O+K entries (and handed over in no particular order), the merge receives far
+    // more than 2(O+K) entries and has to cut repeatedly, in the middle of a segment's list
+    if nseg >= 4 && m >= 8 {
+        let mut counts: Vec<usize> = per_seg.values().copied().collect();
+        counts.sort_unstable_by(|a, b| b.cmp(a));
+        if counts.len() >= 4 {
+            for _ in 0..4 {
+                let c = counts[rng.urange(3, counts.len() - 1)];
+                if c < 4 {
+                    continue;
                 }
-            }
-        }
-        rep.observe("key_comparison", if exact_q { "exact" } else { "float-sum-tolerance" });
-        // matches per segment (for the attribution of the merge defect, see below)
-        let mut per_seg: BTreeMap<u32, usize> = BTreeMap::new();
-        for h in &hits {
-            *per_seg.entry(h.addr.segment_ord).or_insert(0) += 1;
-        }
-        // the grid of (K, O): the K values of the property, plus mid-size K (several segments
-        // deliver full per-segment lists, so the merge has to truncate)
-        let mut ks: Vec<usize> = vec![1, 2, 10, m + 5];
-        if m >= 2 {
-            ks.push(m - 1);
-        }
-        if m >= 1 {
-            ks.push(m);
-        }
-        if m >= 8 {
-            ks.push(m / 2);
-            ks.push(m / 3);
-            ks.push(rng.urange(3, m - 1));
-        }
-        // plan: (kind, K, O, is_paging_page)
-        let mut plan: Vec<(SortKind, usize, usize, bool)> = vec![];
-        let n_searches = if qi == 0 { 10 } else { 8 };
-        for si in 0..n_searches {
-            let kind = if si < 3 { SortKind::Score } else { random_sort_kind(rng, exact_q) };
-            let k = if m >= 8 && nseg >= 3 && rng.chance(1, 3) {
-                rng.urange(2, m / 2 + 1)
-            } else {
-                *rng.pick(&ks)
-            };
-            let o = match rng.below(4) {
-                0 => 0,
-                1 => 1,
-                2 => k,
-                _ => m + rng.urange(0, 3),
-            };
-            plan.push((kind, k, o, false));
-        }
-        // queries that can take a block-max path over posting lists with full blocks: more
-        // order_by_score searches with a K far below the number of matches (the threshold rises
-        // early and whole blocks / candidates have to be skipped on the stored bounds)
-        if pruning_terms.is_some() && max_df_seg > 128 && m >= 3 {
-            for _ in 0..3 {
-                let k = (*rng.pick(&[1usize, 2, 3, 5, 10, 20, 50])).min(m - 1);
-                let o = *rng.pick(&[0usize, 0, 0, 1, 3]);
-                plan.push((SortKind::Score, k, o, false));
-                rep.count("extra_small_K_score_searches_on_block_max_paths", 1);
-            }
-        }
-        // four or more segments that each hold more matches than O+K: every per-segment top list
-        // is cut to O+K entries (and handed over in no particular order), the merge receives far
-        // more than 2(O+K) entries and has to cut repeatedly, in the middle of a segment's list
-        if nseg >= 4 && m >= 8 {
-            let mut counts: Vec<usize> = per_seg.values().copied().collect();
-            counts.sort_unstable_by(|a, b| b.cmp(a));
-            if counts.len() >= 4 {
-                for _ in 0..4 {
-                    let c = counts[rng.urange(3, counts.len() - 1)];
-                    if c < 4 {
-                        continue;
-                    }
-                    let cut = rng.urange((c * 35 / 100).max(2), (c * 95 / 100).max(2));
-                    let o = (*rng.pick(&[0usize, 0, 1, 3, cut / 2, cut - 1])).min(cut - 1);
-                    let kind = loop {
-                        let k = if rng.chance(3, 4) {
-                            random_field_kind(rng)
-                        } else {
-                            random_sort_kind(rng, exact_q)
-                        };
-                        if exact_q || !k.uses_score() {
-                            break k;
-                        }
-                    };
-                    plan.push((kind, cut - o, o, false));
-                    rep.count("searches_with_O+K_below_the_match_count_of_4_or_more_segments", 1);
-                }
-            }
-        }
-        // targeted (K,O): the cut O+K falls inside a group of equal keys that lies in the third or
-        // a later segment (resolved below, once the full order for the sort kind is known)
-        if nseg >= 3 && m >= 4 {
-            for _ in 0..2 {
+                let cut = rng.urange((c * 35 / 100).max(2), (c * 95 / 100).max(2));
+                let o = (*rng.pick(&[0usize, 0, 1, 3, cut / 2, cut - 1])).min(cut - 1);
                 let kind = loop {
-                    let k = random_sort_kind(rng, exact_q);
+                    let k = if rng.chance(3, 4) {
+                        random_field_kind(rng)
+                    } else {
+                        random_sort_kind(rng, exact_q)
+                    };
                     if exact_q || !k.uses_score() {
                         break k;
                     }
                 };
-                plan.push((kind, usize::MAX, rng.usize_below(3), false));
+                plan.push((kind, cut - o, o, false));
+                rep.count("searches_with_O+K_below_the_match_count_of_4_or_more_segments", 1);
             }
         }
-        // 3- and 4-component keys: the cut falls inside a group of documents that tie on the first
-        // two (or three) components and belong to a segment holding more matches than O+K, so the
-        // per-segment top-N has to decide on the last components (resolved below); plus a
-        // paging run over such a key
-        if m >= 3 {
-            for _ in 0..3 {
-                let kind = random_multi_kind(rng, exact_q);
-                plan.push((kind, usize::MAX - 1, rng.usize_below(3), false));
-            }
-            if rng.chance(1, 3) {
-                let kind = random_multi_kind(rng, exact_q);
-                let mut p = *rng.pick(&[1usize, 2, 3, 5, 10, 33]);
-                if m / p > 16 {
-                    p = m / 16 + 1;
-                }
-                let mut off = 0usize;
-                while off <= m {
-                    plan.push((kind, p, off, true));
-                    off += p;
-                }
-                rep.count("paging_runs", 1);
-                rep.count("paging_runs_over_3_or_4_component_keys", 1);
-            }
-        }
-        // paging: successive offsets over exactly comparable keys enumerate every match exactly
-        // once, i.e. page i equals entries i*P..(i+1)*P of the full order
-        if m >= 1 && rng.chance(1, 2) {
+    }
+    // targeted (K,O): the cut O+K falls inside a group of equal keys that lies in the third or
+    // a later segment (resolved below, once the full order for the sort kind is known)
+    if nseg >= 3 && m >= 4 {
+        for _ in 0..2 {
             let kind = loop {
                 let k = random_sort_kind(rng, exact_q);
                 if exact_q || !k.uses_score() {
                     break k;
                 }
             };
-            let mut p = *rng.pick(&[1usize, 2, 3, 7, 10, 50, 128]);
-            if m / p > 24 {
-                p = m / 24 + 1;
+            plan.push((kind, usize::MAX, rng.usize_below(3), false));
+        }
+    }
+    // 3- and 4-component keys: the cut falls inside a group of documents that tie on the first
+    // two (or three) components and belong to a segment holding more matches than O+K, so the
+    // per-segment top-N has to decide on the last components (resolved below); plus a
+    // paging run over such a key
+    if m >= 3 {
+        for _ in 0..3 {
+            let kind = random_multi_kind(rng, exact_q);
+            plan.push((kind, usize::MAX - 1, rng.usize_below(3), false));
+        }
+        if rng.chance(1, 3) {
+            let kind = random_multi_kind(rng, exact_q);
+            let mut p = *rng.pick(&[1usize, 2, 3, 5, 10, 33]);
+            if m / p > 16 {
+                p = m / 16 + 1;
             }
             let mut off = 0usize;
             while off <= m {
@@ -2192,217 +2796,586 @@ fn case(case: u64, rng: &mut Rng, rep: &mut Report, quick: bool) {
                 off += p;
             }
             rep.count("paging_runs", 1);
+            rep.count("paging_runs_over_3_or_4_component_keys", 1);
         }
-        let mut paging_broken = false;
-        for (si, (kind, k, o, paging)) in plan.into_iter().enumerate() {
-            if paging && paging_broken {
+    }
+    // paging: successive offsets over exactly comparable keys enumerate every match exactly
+    // once, i.e. page i equals entries i*P..(i+1)*P of the full order
+    if m >= 1 && rng.chance(1, 2) {
+        let kind = loop {
+            let k = random_sort_kind(rng, exact_q);
+            if exact_q || !k.uses_score() {
+                break k;
+            }
+        };
+        let mut p = *rng.pick(&[1usize, 2, 3, 7, 10, 50, 128]);
+        if m / p > 24 {
+            p = m / 24 + 1;
+        }
+        let mut off = 0usize;
+        while off <= m {
+            plan.push((kind, p, off, true));
+            off += p;
+        }
+        rep.count("paging_runs", 1);
+    }
+    let mut paging_broken = false;
+    for (si, (kind, k, o, paging)) in plan.into_iter().enumerate() {
+        if paging && paging_broken {
+            continue;
+        }
+        let mut expected_all: Vec<(CKey, Hit)> = hits
+            .iter()
+            .map(|h| (kind.key_of(h, &corpus.docs[by_id[&h.id]]), *h))
+            .collect();
+        let spec = kind.cmp();
+        expected_all.sort_by(|a, b| spec.rank(&a.0, &b.0).then_with(|| a.1.addr.cmp(&b.1.addr)));
+        let (k, o) = if k == usize::MAX {
+            let cands: Vec<usize> = (0..m.saturating_sub(1))
+                .filter(|&i| {
+                    let (a, b) = (&expected_all[i], &expected_all[i + 1]);
+                    a.1.addr.segment_ord >= 2
+                        && a.1.addr.segment_ord == b.1.addr.segment_ord
+                        && spec.rank(&a.0, &b.0) == Ordering::Equal
+                })
+                .collect();
+            if cands.is_empty() {
                 continue;
             }
-            let mut expected_all: Vec<(CKey, Hit)> = hits
+            // preferably a segment that holds more matches than O+K: its own top list is
+            // cut (and handed over in no particular order) before the merge
+            let deep: Vec<usize> = cands
                 .iter()
-                .map(|h| (kind.key_of(h, &corpus.docs[by_id[&h.id]]), *h))
+                .copied()
+                .filter(|&i| per_seg[&expected_all[i].1.addr.segment_ord] > i + 1)
                 .collect();
-            let spec = kind.cmp();
-            expected_all.sort_by(|a, b| spec.rank(&a.0, &b.0).then_with(|| a.1.addr.cmp(&b.1.addr)));
-            let (k, o) = if k == usize::MAX {
-                let cands: Vec<usize> = (0..m.saturating_sub(1))
+            let t = if !deep.is_empty() && rng.chance(3, 4) {
+                rep.count("searches_with_cut_inside_a_tie_group_of_a_late_segment_holding_more_matches_than_the_cut", 1);
+                *rng.pick(&deep) + 1
+            } else {
+                *rng.pick(&cands) + 1
+            };
+            let o = o.min(t - 1);
+            rep.count("searches_with_cut_inside_a_tie_group_of_a_late_segment", 1);
+            (t - o, o)
+        } else if k == usize::MAX - 1 {
+            let arity = match spec {
+                CmpSpec::Four(..) => 4,
+                _ => 3,
+            };
+            // prefer groups tied on all but the last component, else on the first two
+            let find = |n: usize| -> Vec<usize> {
+                (0..m.saturating_sub(1))
                     .filter(|&i| {
                         let (a, b) = (&expected_all[i], &expected_all[i + 1]);
-                        a.1.addr.segment_ord >= 2
-                            && a.1.addr.segment_ord == b.1.addr.segment_ord
-                            && spec.rank(&a.0, &b.0) == Ordering::Equal
+                        a.1.addr.segment_ord == b.1.addr.segment_ord
+                            && per_seg[&a.1.addr.segment_ord] > i + 1
+                            && prefix_tied(&a.0, &b.0, n)
+                            && spec.rank(&a.0, &b.0) != Ordering::Equal
                     })
-                    .collect();
-                if cands.is_empty() {
-                    continue;
+                    .collect()
+            };
+            let mut cands = find(arity - 1);
+            if cands.is_empty() || rng.chance(1, 3) {
+                let c2 = find(2);
+                if !c2.is_empty() {
+                    cands = c2;
                 }
-                // preferably a segment that holds more matches than O+K: its own top list is
-                // cut (and handed over in no particular order) before the merge
-                let deep: Vec<usize> = cands
-                    .iter()
-                    .copied()
-                    .filter(|&i| per_seg[&expected_all[i].1.addr.segment_ord] > i + 1)
-                    .collect();
-                let t = if !deep.is_empty() && rng.chance(3, 4) {
-                    rep.count("searches_with_cut_inside_a_tie_group_of_a_late_segment_holding_more_matches_than_the_cut", 1);
-                    *rng.pick(&deep) + 1
-                } else {
-                    *rng.pick(&cands) + 1
-                };
+            }
+            if cands.is_empty() {
+                // no such group: any K below the largest segment's match count
+                let big = per_seg.values().copied().max().unwrap_or(1);
+                let t = rng.urange(1, big.max(2) - 1).max(1);
                 let o = o.min(t - 1);
-                rep.count("searches_with_cut_inside_a_tie_group_of_a_late_segment", 1);
                 (t - o, o)
-            } else if k == usize::MAX - 1 {
-                let arity = match spec {
-                    CmpSpec::Four(..) => 4,
-                    _ => 3,
-                };
-                // prefer groups tied on all but the last component, else on the first two
-                let find = |n: usize| -> Vec<usize> {
-                    (0..m.saturating_sub(1))
-                        .filter(|&i| {
-                            let (a, b) = (&expected_all[i], &expected_all[i + 1]);
-                            a.1.addr.segment_ord == b.1.addr.segment_ord
-                                && per_seg[&a.1.addr.segment_ord] > i + 1
-                                && prefix_tied(&a.0, &b.0, n)
-                                && spec.rank(&a.0, &b.0) != Ordering::Equal
-                        })
-                        .collect()
-                };
-                let mut cands = find(arity - 1);
-                if cands.is_empty() || rng.chance(1, 3) {
-                    let c2 = find(2);
-                    if !c2.is_empty() {
-                        cands = c2;
-                    }
-                }
-                if cands.is_empty() {
-                    // no such group: any K below the largest segment's match count
-                    let big = per_seg.values().copied().max().unwrap_or(1);
-                    let t = rng.urange(1, big.max(2) - 1).max(1);
-                    let o = o.min(t - 1);
-                    (t - o, o)
-                } else {
-                    let t = *rng.pick(&cands) + 1;
-                    let o = o.min(t - 1);
-                    rep.count("searches_with_cut_inside_a_group_tied_on_a_key_prefix_of_a_3_or_4_tuple", 1);
-                    (t - o, o)
-                }
             } else {
-                (k, o)
-            };
-            let oclass = if o == 0 {
-                "0"
-            } else if o == 1 {
-                "1"
-            } else if o >= m {
-                "beyond-end"
-            } else if paging {
-                "page"
-            } else {
-                "K"
-            };
-            let exact = exact_q || !kind.uses_score();
-            rep.eval();
-            if paging {
-                rep.count("paging_pages", 1);
+                let t = *rng.pick(&cands) + 1;
+                let o = o.min(t - 1);
+                rep.count("searches_with_cut_inside_a_group_tied_on_a_key_prefix_of_a_3_or_4_tuple", 1);
+                (t - o, o)
             }
-            rep.observe("sort_kind", kind.name());
-            rep.observe("K_class", kclass(k, m));
-            rep.observe("O_class", oclass);
-            let got = match do_search(kind, &searcher, &*query, k, o, &tables) {
-                Ok(g) => g,
-                Err(e) => {
-                    let field = match kind {
-                        SortKind::U64Field(_) => Some("fu"),
-                        SortKind::Fast(f, _) | SortKind::FastCmp(f, _) | SortKind::Erased(f, _) => Some(f.field()),
-                        SortKind::TupleUI(..) => {
-                            if empty_column["fu"] {
-                                Some("fu")
-                            } else {
-                                Some("fi")
-                            }
-                        }
-                        SortKind::TupleScoreStr(_) => Some("fs"),
-                        SortKind::Tuple3UIF(..)
-                        | SortKind::Tuple3BCI(..)
-                        | SortKind::Tuple3ScoreStrU(..)
-                        | SortKind::Tuple4BUSI(..)
-                        | SortKind::Tuple4UScoreDF(..) => ["fu", "fi", "ff", "fb", "fs", "fd"]
-                            .into_iter()
-                            .find(|f| empty_column[*f]),
-                        _ => None,
-                    };
-                    let sig = match field {
-                        _ if e.starts_with(PANIC_PREFIX) => panic_sig(&e),
-                        // (never observed: a sort on a fast field when one segment holds no value
-                        // at all for that field)
-                        Some(f) if empty_column[f] => format!(
-                            "{}:search-fails-when-a-segment-has-no-value-for-the-sort-field",
-                            kind.family()
-                        ),
-                        _ => format!("api-error:search[{}]", kind.family()),
-                    };
-                    rep.violation(
-                        sig,
-                        json!({"error": e, "sort": kind.name(), "query": qdesc, "K": k, "O": o, "corpus": corpus_desc}),
-                    );
-                    paging_broken |= paging;
-                    continue;
-                }
-            };
-            let c6 = Ctx6 {
-                corpus_desc: &corpus_desc,
-                qdesc: &qdesc,
-                qkind,
-                kind,
-                n_leaves,
-            };
-            let mut extra = String::new();
-            // attribution 1 (see `stale_block_max`): some document that belongs to the first O+K
-            // entries but was not returned sits in a posting block whose stored block-max pair
-            // underestimates the block at search time
-            if matches!(kind, SortKind::Score) && nseg >= 2 && pruning_terms.is_some() {
-                let hi = (o + k).min(m);
-                let got_set: HashSet<DocAddress> = got.iter().map(|x| x.1).collect();
-                'attr: for (_, h) in expected_all[..hi].iter().filter(|(_, h)| !got_set.contains(&h.addr)).take(30) {
-                    for (f, w) in pruning_terms.as_ref().unwrap() {
-                        if stale_block_max(&searcher, &sch, *f, *w, h.addr) == Some(true) {
-                            extra = "stale".to_string();
-                            break 'attr;
+        } else {
+            (k, o)
+        };
+        let oclass = if o == 0 {
+            "0"
+        } else if o == 1 {
+            "1"
+        } else if o >= m {
+            "beyond-end"
+        } else if paging {
+            "page"
+        } else {
+            "K"
+        };
+        let exact = exact_q || !kind.uses_score();
+        rep.eval();
+        if paging {
+            rep.count("paging_pages", 1);
+        }
+        rep.observe("sort_kind", kind.name());
+        rep.observe("K_class", kclass(k, m));
+        rep.observe("O_class", oclass);
+        let plain_req = Req {
+            searcher,
+            q: &*query,
+            shape: Shape::Plain,
+            k,
+            o,
+            k2: 1,
+            o2: 0,
+            k3: 1,
+            o3: 0,
+            pred: 0,
+        };
+        let got = match do_search(kind, &plain_req, tables) {
+            Ok(g) => g.page,
+            Err(e) => {
+                let field = match kind {
+                    SortKind::U64Field(_) => Some("fu"),
+                    SortKind::Fast(f, _) | SortKind::FastCmp(f, _) | SortKind::Erased(f, _) => Some(f.field()),
+                    SortKind::TupleUI(..) => {
+                        if empty_column["fu"] {
+                            Some("fu")
+                        } else {
+                            Some("fi")
                         }
                     }
-                }
-            }
-            // attribution 2: merge_fruits feeds the per-segment lists (in heap / buffer order,
-            // not in address order) to a TopNComputer of capacity 2*(O+K); that computer only
-            // truncates - and then starts rejecting keys equal to its threshold - when more than
-            // 2*(O+K) entries arrive. With at most two segments this cannot happen.
-            let delivered: usize = per_seg.values().map(|&c| c.min(o + k)).sum();
-            let merge_truncates = delivered > 2 * (o + k);
-            let ok = if exact {
-                check_exact(rep, &c6, &expected_all, &got, k, o, &extra, merge_truncates)
-            } else {
-                check_approx(rep, &c6, &expected_all, &got, k, o, &extra)
-            };
-            if !ok {
+                    SortKind::TupleScoreStr(_) => Some("fs"),
+                    SortKind::Tuple3UIF(..)
+                    | SortKind::Tuple3BCI(..)
+                    | SortKind::Tuple3ScoreStrU(..)
+                    | SortKind::Tuple4BUSI(..)
+                    | SortKind::Tuple4UScoreDF(..) => ["fu", "fi", "ff", "fb", "fs", "fd"]
+                        .into_iter()
+                        .find(|f| empty_column[*f]),
+                    _ => None,
+                };
+                let sig = match field {
+                    _ if e.starts_with(PANIC_PREFIX) => panic_sig(&e),
+                    // (never observed: a sort on a fast field when one segment holds no value
+                    // at all for that field)
+                    Some(f) if empty_column[f] => format!(
+                        "{}:search-fails-when-a-segment-has-no-value-for-the-sort-field",
+                        kind.family()
+                    ),
+                    _ => format!("api-error:search[{}]", kind.family()),
+                };
+                rep.violation(
+                    sig,
+                    json!({"error": e, "sort": kind.name(), "query": qdesc, "K": k, "O": o, "corpus": corpus_desc}),
+                );
                 paging_broken |= paging;
+                continue;
             }
-            // non-triviality
-            let tie = if o + k < m && o + k >= 1 {
-                let a = &expected_all[o + k - 1];
-                let b = &expected_all[o + k];
+        };
+        let c6 = Ctx6 {
+            corpus_desc: &corpus_desc,
+            qdesc: &qdesc,
+            qkind,
+            kind,
+            n_leaves,
+            shape: Shape::Plain,
+            mags: mags.as_ref(),
+        };
+        let mut extra = String::new();
+        // attribution 0 (negative weight on a block-max path): order_by_score on a boolean query
+        // with a negatively weighted term clause returns a wrong page, while the very same page
+        // requested through `(TopDocs, Count)` - same collector, same per-segment top-K and
+        // merge, but Weight::for_each instead of Weight::for_each_pruning - is right
+        if matches!(kind, SortKind::Score) && neg_block_wand_query {
+            rep.count("order_by_score_searches_on_boolean_queries_with_a_negatively_weighted_term", 1);
+            let wrong = |page: &[(CKey, DocAddress)]| {
                 if exact {
-                    spec.rank(&a.0, &b.0) == Ordering::Equal
+                    diagnose_exact(spec, &expected_all, page, k, o).is_some()
                 } else {
-                    (a.1.score - b.1.score).abs() <= 4.0 * n_leaves as f32 * ulp(a.1.score)
+                    diagnose_approx(&c6, &expected_all, page, k, o).is_some()
                 }
-            } else {
-                false
             };
-            if tie {
-                rep.count("searches_with_a_tie_at_the_page_boundary", 1);
-                if merge_truncates {
-                    rep.count("searches_with_boundary_tie_and_truncating_merge", 1);
+            if wrong(&got) {
+                let req2 = Req {
+                    shape: Shape::TopCount,
+                    ..plain_req
+                };
+                if let Ok(out2) = do_search(kind, &req2, tables) {
+                    if !wrong(&out2.page) {
+                        extra = "negboost".to_string();
+                    }
                 }
-            }
-            if o + k < m && (tie || max_df_seg > 128) {
-                rep.nontrivial(format!(
-                    "{qkind}|{}|K{}|O{oclass}|s{nseg}|{exec}|tie{}|{blk}|{}",
-                    kind.name(),
-                    kclass(k, m),
-                    tie as u8,
-                    if has_deletes { "del" } else { "nodel" }
-                ));
-            }
-            if ok && case < 2 && qi < 2 && si < 2 {
-                rep.sample(json!({
-                    "corpus": corpus_desc, "query": qdesc, "sort": kind.name(), "K": k, "O": o, "matches": m,
-                    "comparison": if exact {"exact"} else {"tolerance"},
-                    "returned_head": brief(&got, 0),
-                }));
             }
         }
+        // attribution 1 (see `stale_block_max`): some document that belongs to the first O+K
+        // entries but was not returned sits in a posting block whose stored block-max pair
+        // underestimates the block at search time
+        if extra.is_empty() && matches!(kind, SortKind::Score) && nseg >= 2 && pruning_terms.is_some() {
+            let hi = (o + k).min(m);
+            let got_set: HashSet<DocAddress> = got.iter().map(|x| x.1).collect();
+            'attr: for (_, h) in expected_all[..hi].iter().filter(|(_, h)| !got_set.contains(&h.addr)).take(30) {
+                for (f, w) in pruning_terms.as_ref().unwrap() {
+                    if stale_block_max(&searcher, &sch, *f, *w, h.addr) == Some(true) {
+                        extra = "stale".to_string();
+                        break 'attr;
+                    }
+                }
+            }
+        }
+        // attribution 2: merge_fruits feeds the per-segment lists (in heap / buffer order,
+        // not in address order) to a TopNComputer of capacity 2*(O+K); that computer only
+        // truncates - and then starts rejecting keys equal to its threshold - when more than
+        // 2*(O+K) entries arrive. With at most two segments this cannot happen.
+        let delivered: usize = per_seg.values().map(|&c| c.min(o + k)).sum();
+        let merge_truncates = delivered > 2 * (o + k);
+        let ok = if exact {
+            check_exact(rep, &c6, &expected_all, &got, k, o, &extra, merge_truncates)
+        } else {
+            check_approx(rep, &c6, &expected_all, &got, k, o, &extra)
+        };
+        if !ok {
+            paging_broken |= paging;
+        }
+        // non-triviality
+        let tie = if o + k < m && o + k >= 1 {
+            let a = &expected_all[o + k - 1];
+            let b = &expected_all[o + k];
+            if exact {
+                spec.rank(&a.0, &b.0) == Ordering::Equal
+            } else {
+                (a.1.score - b.1.score).abs() <= 4.0 * n_leaves as f32 * ulp(a.1.score)
+            }
+        } else {
+            false
+        };
+        if tie {
+            rep.count("searches_with_a_tie_at_the_page_boundary", 1);
+            if merge_truncates {
+                rep.count("searches_with_boundary_tie_and_truncating_merge", 1);
+            }
+        }
+        if o + k < m && (tie || max_df_seg > 128) {
+            rep.nontrivial(format!(
+                "{qkind}|{}|K{}|O{oclass}|s{nseg}|{exec}|tie{}|{blk}|{}",
+                kind.name(),
+                kclass(k, m),
+                tie as u8,
+                if has_deletes { "del" } else { "nodel" }
+            ));
+        }
+        if ok && case < 2 && qi < 2 && si < 2 {
+            rep.sample(json!({
+                "corpus": corpus_desc, "query": qdesc, "sort": kind.name(), "K": k, "O": o, "matches": m,
+                "comparison": if exact {"exact"} else {"tolerance"},
+                "returned_head": brief(&got, 0),
+            }));
+        }
+        // ---- the same page with the TopDocs collector composed with other collectors
+        if !(small || rng.chance(1, 2)) {
+            continue;
+        }
+        let shape = *rng.pick(&SHAPES);
+        let (k2, o2) = match rng.below(3) {
+            0 => (k, o + k),
+            1 => (*rng.pick(&ks), rng.usize_below(m + 2)),
+            _ => (k.max(2) - 1, o + 1),
+        };
+        let k3 = *rng.pick(&[1usize, 2, 3, 10]);
+        let o3 = *rng.pick(&[0usize, 0, 1, 2, 5]);
+        let pred = rng.below(3) as u8;
+        let req = Req {
+            shape,
+            k2,
+            o2,
+            k3,
+            o3,
+            pred,
+            ..plain_req
+        };
+        rep.eval();
+        rep.count("composed_searches", 1);
+        rep.observe("composition", shape.name());
+        rep.observe("composition_x_collector_family", format!("{}|{}", shape.name(), kind.family()));
+        let out = match do_search(kind, &req, tables) {
+            Ok(out) => out,
+            Err(e) => {
+                let sig = if e.starts_with(PANIC_PREFIX) {
+                    panic_sig(&e)
+                } else {
+                    format!("composed-collector:api-error:search[{}]", kind.family())
+                };
+                rep.violation(
+                    sig,
+                    json!({"error": e, "collector": shape.name(), "sort": kind.name(), "query": qdesc, "K": k, "O": o, "corpus": corpus_desc}),
+                );
+                continue;
+            }
+        };
+        let cc = Ctx6 {
+            corpus_desc: &corpus_desc,
+            qdesc: &qdesc,
+            qkind,
+            kind,
+            n_leaves,
+            shape,
+            mags: mags.as_ref(),
+        };
+        // every Count of the composition saw every match
+        if out.counts.iter().any(|&c| c != m) {
+            rep.violation(
+                "composed-collector:count-differs-from-the-number-of-matches",
+                json!({"collector": shape.name(), "sort": kind.name(), "query": qdesc, "K": k, "O": o,
+                       "counts": out.counts, "matches": m, "corpus": corpus_desc}),
+            );
+        }
+        // FilterCollector: the complete order restricted to the documents that pass the predicate
+        let filtered: Option<Vec<(CKey, Hit)>> = if shape == Shape::Filtered {
+            Some(
+                expected_all
+                    .iter()
+                    .filter(|(_, h)| corpus.docs[by_id[&h.id]].fu.map(|v| fu_pred(pred, v)).unwrap_or(false))
+                    .cloned()
+                    .collect(),
+            )
+        } else {
+            None
+        };
+        let exp_list: &[(CKey, Hit)] = filtered.as_deref().unwrap_or(&expected_all);
+        let m_eff = exp_list.len();
+        let ok_c = if exact {
+            check_exact(rep, &cc, exp_list, &out.page, k, o, "", false)
+        } else {
+            check_approx(rep, &cc, exp_list, &out.page, k, o, "")
+        };
+        if let Some(p2) = &out.page2 {
+            rep.count("composed_second_pages_of_the_same_sort", 1);
+            if exact {
+                check_exact(rep, &cc, exp_list, p2, k2, o2, "", false);
+            } else {
+                check_approx(rep, &cc, exp_list, p2, k2, o2, "");
+            }
+        }
+        if let Some(sp) = &out.score_page {
+            rep.count("composed_companion_pages_by_score", 1);
+            let cs = Ctx6 {
+                kind: SortKind::Score,
+                ..cc
+            };
+            let sp: Page = sp.iter().map(|(s, a)| (CKey::One(Some(OrdVal::Sc(*s))), *a)).collect();
+            if exact_q {
+                check_exact(rep, &cs, &expected_by_score, &sp, k3, o3, "", false);
+            } else {
+                check_approx(rep, &cs, &expected_by_score, &sp, k3, o3, "");
+            }
+        }
+        if ok && ok_c && shape != Shape::Filtered {
+            // both equal the oracle's page; for exactly comparable keys they are identical lists
+            if exact {
+                let same = got.len() == out.page.len()
+                    && got.iter().zip(out.page.iter()).all(|(a, b)| a.1 == b.1 && a.0.same(&b.0));
+                if same {
+                    rep.count("composed_pages_identical_to_the_plain_page", 1);
+                } else {
+                    rep.harness_error(format!(
+                        "case {case}: composed page and plain page both equal the oracle page but differ from each other"
+                    ));
+                }
+            } else {
+                rep.count("composed_pages_equal_to_the_plain_page_up_to_rounding", 1);
+            }
+        }
+        if o > 0 {
+            rep.count("composed_searches_with_offset>0", 1);
+        }
+        // non-triviality: with O > 0, some segment holds more than K of the first O+K entries
+        // (its per-segment list must be O+K long, not K long)
+        let hi = (o + k).min(m_eff);
+        let mut first: BTreeMap<u32, usize> = BTreeMap::new();
+        for (_, h) in &exp_list[..hi] {
+            *first.entry(h.addr.segment_ord).or_insert(0) += 1;
+        }
+        let deep = o > 0 && first.values().any(|&c| c > k);
+        if deep {
+            rep.count("composed_searches_with_O>0_where_a_segment_holds_more_than_K_of_the_first_O+K", 1);
+        }
+        if o + k < m_eff || deep {
+            rep.nontrivial(format!(
+                "composed|{}|{}|K{}|O{oclass}|s{nseg}|{exec}|deep{}",
+                shape.name(),
+                kind.family(),
+                kclass(k, m_eff),
+                deep as u8
+            ));
+        }
+    }
+}
+
+// ---------------------------------------------------------------------------------------------
+// stream `small`: tiny corpora (3-14 documents, 1-3 segments, three words), queries with boosts
+// and constant scores <= 0, the complete (K, O) grid, every search plain and composed. The first
+// cases are hand-made minimal scenarios.
+
+fn small_doc(id: u64, body: &[u16]) -> MDoc {
+    let mut d = MDoc::empty(id);
+    d.body = body.to_vec();
+    d.fu = Some(id % 3);
+    d.fi = Some(id as i64 - 2);
+    d.fs = Some(["a", "b"][(id % 2) as usize].to_string());
+    d
+}
+
+fn small_corpus_of(docs: Vec<MDoc>, cuts: Vec<usize>, deletes: Vec<u64>) -> Corpus {
+    Corpus {
+        docs,
+        cuts,
+        del_mode: if deletes.is_empty() { "none" } else { "few" },
+        deletes,
+        mode: Mode::Random,
+        value_profile: "few-values",
+        body_opt: IndexRecordOption::WithFreqs,
+        allmiss: None,
+    }
+}
+
+const N_PINNED: u64 = 3;
+
+fn pinned(i: u64) -> Option<(Corpus, Vec<(Q, &'static str)>)> {
+    let t = |w: u16| Q::term(TF::Body, w);
+    let neg = |w: u16, b: f32| Q::Boost(Box::new(Q::term(TF::Body, w)), b);
+    match i {
+        // w0 OR w1^-2 ("apple OR spam^-2"): d0 = apple, d1 = spam, d2 = apple apple
+        0 => Some((
+            small_corpus_of(
+                vec![small_doc(1, &[0]), small_doc(2, &[1]), small_doc(3, &[0, 0])],
+                vec![],
+                vec![],
+            ),
+            vec![(
+                Q::Bool(vec![(Occur::Should, t(0)), (Occur::Should, neg(1, -2.0))]),
+                "non-positive-boost",
+            )],
+        )),
+        // +w0 +w1^-2: every document holds both words
+        1 => Some((
+            small_corpus_of(
+                vec![small_doc(1, &[0, 1]), small_doc(2, &[0, 0, 0, 1, 100, 101]), small_doc(3, &[0, 1, 1])],
+                vec![],
+                vec![],
+            ),
+            vec![(
+                Q::Bool(vec![(Occur::Must, t(0)), (Occur::Must, neg(1, -2.0))]),
+                "non-positive-boost",
+            )],
+        )),
+        // constant scores 0 and < 0 over two segments (pages beyond the first hit of a segment)
+        2 => Some((
+            small_corpus_of(
+                vec![
+                    small_doc(1, &[0]),
+                    small_doc(2, &[0, 1]),
+                    small_doc(3, &[1]),
+                    small_doc(4, &[0, 1]),
+                    small_doc(5, &[1, 1]),
+                ],
+                vec![3],
+                vec![],
+            ),
+            vec![
+                (Q::Const(Box::new(t(1)), 0.0), "term-variant"),
+                (
+                    Q::Bool(vec![(Occur::Should, t(0)), (Occur::Should, Q::Const(Box::new(t(1)), -2.0))]),
+                    "non-positive-boost",
+                ),
+            ],
+        )),
+        _ => None,
+    }
+}
+
+fn small_corpus(rng: &mut Rng) -> Corpus {
+    let n = rng.urange(3, 14);
+    let nseg = rng.urange(1, 3).min(n);
+    let cuts = distinct_sizes(random_cuts(rng, n, nseg), n);
+    let p_word: Vec<u64> = (0..3).map(|_| *rng.pick(&[35u64, 55, 80])).collect();
+    let mut docs = vec![];
+    for i in 0..n {
+        let mut d = MDoc::empty(i as u64 + 1);
+        let mut body = vec![];
+        for (w, p) in p_word.iter().enumerate() {
+            if rng.chance(*p, 100) {
+                for _ in 0..*rng.pick(&[1usize, 1, 2, 3]) {
+                    body.push(w as u16);
+                }
+            }
+        }
+        for _ in 0..rng.urange(0, 3) {
+            body.push(100 + rng.below(4) as u16);
+        }
+        rng.shuffle(&mut body);
+        d.body = body;
+        d.tag = rng.below(3) as u8;
+        if rng.chance(4, 5) {
+            d.fu = Some(*rng.pick(&[0u64, 1, 2, 7]));
+        }
+        if rng.chance(4, 5) {
+            d.fi = Some(*rng.pick(&[-1i64, 0, 1, 5]));
+        }
+        if rng.chance(4, 5) {
+            d.ff = Some(*rng.pick(&[-2.5f64, 0.0, 0.5, 1e10]));
+        }
+        if rng.chance(4, 5) {
+            d.fd = Some(*rng.pick(&[0i64, 86_400, 1_700_000_000]));
+        }
+        if rng.chance(4, 5) {
+            d.fs = Some((*rng.pick(&["a", "b", "zz"])).to_string());
+        }
+        if rng.chance(4, 5) {
+            d.fb = Some(rng.bool());
+        }
+        docs.push(d);
+    }
+    let deletes: Vec<u64> = if rng.chance(1, 3) {
+        (0..rng.urange(1, 2)).map(|_| rng.range(1, n as u64)).collect()
+    } else {
+        vec![]
+    };
+    small_corpus_of(docs, cuts, deletes)
+}
+
+fn small_query(rng: &mut Rng) -> (Q, &'static str) {
+    let mut words = vec![0u16, 1, 2];
+    rng.shuffle(&mut words);
+    match rng.weighted(&[6, 1, 1, 1, 1]) {
+        0 => {
+            words.truncate(rng.urange(1, 3));
+            let ts = words.into_iter().map(|w| Q::term(TF::Body, w)).collect();
+            (demotion(rng, ts), "non-positive-boost")
+        }
+        1 => (Q::term(TF::Body, words[0]), "term"),
+        2 => (Q::Const(Box::new(Q::term(TF::Body, words[0])), nonpos(rng)), "term-variant"),
+        3 => {
+            words.truncate(rng.urange(2, 3));
+            (
+                Q::Bool(words.into_iter().map(|w| (Occur::Should, Q::term(TF::Body, w))).collect()),
+                "term-union",
+            )
+        }
+        _ => (Q::Boost(Box::new(Q::All), nonpos(rng)), "tree"),
+    }
+}
+
+fn small_case(case: u64, rng: &mut Rng, rep: &mut Report) {
+    let (corpus, queries, threads) = match pinned(case) {
+        Some((c, qs)) => (c, qs, 0),
+        None => {
+            let c = small_corpus(rng);
+            let qs = (0..6).map(|_| small_query(rng)).collect();
+            (c, qs, *rng.pick(&[0usize, 0, 2]))
+        }
+    };
+    rep.count("tiny_corpora_searched_over_the_whole_(K,O)_grid", 1);
+    let Some(env) = setup(case, corpus, threads, rep, true) else {
+        return;
+    };
+    for (qi, (q, qkind)) in queries.iter().enumerate() {
+        query_round(&env, rng, rep, q, qkind, qi);
     }
 }
 
@@ -2410,17 +3383,21 @@ fn main() {
     let ctx = Ctx::from_env("C06", "exploration");
     let quick = ctx.quick();
     let n = ctx.scale(480, 5000) as u64;
-    let rep = run_cases(&ctx, "topk", n, |c, rng, rep| case(c, rng, rep, quick));
+    let mut rep = run_cases(&ctx, "topk", n, |c, rng, rep| case(c, rng, rep, quick));
+    let n_small = N_PINNED + ctx.scale(150, 3000) as u64;
+    rep.merge(run_cases(&ctx, "small", n_small, |c, rng, rep| small_case(c, rng, rep)));
     simple_finish(
         &ctx,
         rep,
-        "evaluation = one TopDocs search (a (K,O) grid point or one page of a paging run) compared with entries O..O+K of the exhaustive list of the same searcher (own non-pruning scoring collector; fast-field / tweak / custom keys from the generator's model) ordered by (key per documented comparator, address asc). Exact comparison for single scoring clauses, two-term sums and all non-score keys; 4*n ulp tolerance for float sums of n>=3 clauses. Corpora: Ties / BlockMax / Random / Skew plus Dense (4-8 clause term conjunctions with many matches), Short and Sparse (average body length 1-5 tokens resp. < 1 token, few (length, tf) shapes, half of them single-segment) and fast-field values with per-segment weights; extra order_by_score searches with K in 1..50 on every term-only query over posting lists with full blocks; O+K placed just below the match count of >= 4 segments. Non-trivial = K+O < matches and (a tie exactly at the page boundary or a query term whose posting list spans more than one 128-doc block in some segment). Distinct = query kind x collector flavour x K class x O class x segment count x executor x tie x posting size class x deletes.",
+        "evaluation = one TopDocs search (a (K,O) grid point or one page of a paging run) compared with entries O..O+K of the exhaustive list of the same searcher (own non-pruning scoring collector; fast-field / tweak / custom keys from the generator's model) ordered by (key per documented comparator, address asc). Exact comparison for single scoring clauses, two-term sums and all non-score keys; 4*n ulp tolerance for float sums of n>=3 clauses. Corpora: Ties / BlockMax / Random / Skew plus Dense (4-8 clause term conjunctions with many matches), Short and Sparse (average body length 1-5 tokens resp. < 1 token, few (length, tf) shapes, half of them single-segment) and fast-field values with per-segment weights; extra order_by_score searches with K in 1..50 on every term-only query over posting lists with full blocks; O+K placed just below the match count of >= 4 segments. Every second search (every search of stream `small`) is repeated with the TopDocs collector COMPOSED with other collectors - (TopDocs,Count), (Count,TopDocs), MultiCollector{TopDocs}, {TopDocs,Count}, {Count,TopDocs,second TopDocs of the same sort,TopDocs by score}, (Count,TopDocs,Count), (TopDocs,Count,TopDocs',Count), ((TopDocs,Count),Count), (Count,(Count,TopDocs)), ((Count,(TopDocs,Count)),TopDocs'), (Some(TopDocs),None), (TopDocs,TopDocs by score), FilterCollector(fu predicate,TopDocs) - for every sort kind, K, O and executor of the plan: the composed page, the second page of the same sort, the companion page by score and every Count are compared with the same oracle (FilterCollector: the complete order restricted by the model to the documents passing the predicate), and the composed page with the plain one. Queries carry boosts and constant scores <= 0 (kind non-positive-boost: unions / intersections / must+should / lone should clause / n-of-n should clauses of term clauses with one or two demoted ones, plus non-positive boosts and constants in trees and single clauses). Stream `small`: 3-14 documents, 1-3 segments, three words, such queries, the complete (K,O) grid for order_by_score and three random sort kinds, plain and composed; its first cases are hand-made minimal scenarios. Non-trivial = K+O < matches and (a tie exactly at the page boundary or a query term whose posting list spans more than one 128-doc block in some segment); composed: K+O < matches or (O > 0 and a segment holds more than K of the first O+K entries). Distinct = query kind x collector flavour x K class x O class x segment count x executor x tie x posting size class x deletes (composed: composition x collector family x K class x O class x segment count x executor x deep).",
         ctx.scale(400, 6000),
         &[
             "the exhaustive pass uses Weight::for_each (scorer.score() for every alive match); TopDocs::order_by_score uses Weight::for_each_pruning",
             "fast-field keys of the oracle come from the generated documents (looked up through the `id` fast field), not from tantivy's column readers",
-            "f64 keys never contain NaN or -0.0; date keys are whole seconds (the default fast-field precision); negative boosts are not generated",
-            "score keys are 'exact' for one scoring leaf or the sum of exactly two plain term clauses (float addition is commutative); otherwise 4*n ulp",
+            "f64 fast-field values never contain NaN or -0.0; date keys are whole seconds (the default fast-field precision); the sign of a zero score is not compared (0.0 and -0.0 are the same key)",
+            "score keys are 'exact' for one scoring leaf or the sum of exactly two term clauses (plain, boosted or constant-scored; float addition is commutative); otherwise 4*n ulp; when a boost or constant is negative the ulp is taken at the document's score under the same query with every boost and constant replaced by its absolute value (own exhaustive pass), because the rounding error of a sum with cancellation is relative to the magnitude of its addends",
+            "composed searches: 2-tuples and MultiCollector hold the TopDocs collector itself; the deeper shapes (3-/4-tuples, nested tuples, Option, FilterCollector, TopDocs + TopDocs-by-score) hold it behind a type-erasing adapter of the harness that forwards for_segment / collect / collect_block / harvest / merge_fruits and - like every composing collector - does not forward collect_segment",
+            "a wrong order_by_score page is attributed to `negative-boost-block-wand-bound` only when the query is a boolean query containing a term clause whose weight is negative (product of the boosts around it) AND the same page requested through (TopDocs, Count) - Weight::for_each instead of Weight::for_each_pruning - equals the oracle's page",
             "a left-out document is attributed to the known segment-local-avgdl defect only for order_by_score over >= 2 segments on a term-only query when the document lies in a full posting block whose stored (fieldnorm, tf) pair - recomputed under the segment's own average length - scores below the block's true maximum under the searcher-wide average; in a single segment no such attribution exists",
             "tuple keys (2, 3 and 4 components mixing u64/i64/f64/date/bool/string fast fields, a custom computer and the score) are ordered lexicographically by the component comparators, then by address; K/O cuts are placed inside groups tied on a key prefix in segments holding more matches than O+K",
         ],
